@@ -12,1272 +12,2576 @@ Definition show_fres (r : fres) : string :=
   end.
 Definition check (rs : list rune) : string := digest (show_fres (format_res rs)).
 Definition full (rs : list rune) : string := show_fres (format_res rs).
-Eval vm_compute in ("<<<M32>>>" ++ check (runes_of_ascii "packet Logon{
-f32a
-// " ++ [27880; 37322]%N ++ runes_of_ascii "
-// " ++ [128512]%N ++ runes_of_ascii " emoji
-@lengthOf(
-x ) `u8 x,` ,
-@calculatedFrom(
-    // `tick` ""quote"" 'q'
-    ""a\""b"" // trailing space 
-) @rightPad( '0'
-)repeat int8
-u128`doc` , match packetx //x
-as
-a1 { [
-    // " ++ [27880; 37322]%N ++ runes_of_ascii "
-    65535, """ ++ [128512]%N ++ runes_of_ascii """ ]
-: packetx	,00 : x
-,
-// c
-// @lengthOf(
-} ,
-    @calculatedFrom(""" ++ [28040; 24687]%N ++ runes_of_ascii """ )match
-leftPad as lengthOf /// triple
-{ 0
-: packetx, [
-    ""{,}"" // `tick` ""quote"" 'q'
-,  0,
-""CRC32"" , 4294967296
-]
-    :
-    // @lengthOf(
-    int
-, """ ++ [28040; 24687]%N ++ runes_of_ascii """:A, [ 7
-, 0  ,
-""abc"" ,""CRC32"" ,""x y""// c
-,
-    //	t
-    255
-// a // b
-// " ++ [27880; 37322]%N ++ runes_of_ascii "
-, 007
-, 1 // @lengthOf(
-]	: _x } ,matchKey@lengthOf(tag ) , string BodyLength
-    @calculatedFrom( ""packet""	)
-/// triple
-// a // b
-, As @lengthOf(i8i8 ) `a\`
-,int16 A@lengthOf( tag ) `// not a comment`
-// " ++ [128512]%N ++ runes_of_ascii " emoji
-//
-,
-}
-MetaData metadata
-//	t
-// " ++ [128512]%N ++ runes_of_ascii " emoji
+Eval vm_compute in ("<<<M3567>>>" ++ check (runes_of_ascii "// top
+options // c0
 {
-u32
-// c
-// a // b
-a1 ,  u16 BodyLength `tab	here` // " ++ [128512]%N ++ runes_of_ascii " emoji
-, int8
-lengthOf// " ++ [27880; 37322]%N ++ runes_of_ascii "
-,
-    // " ++ [128512]%N ++ runes_of_ascii " emoji
-    trueish x_y_z ,charz leftPad //
-,} MetaData leftPad {	} packet rootA
-{ match
-    x
-as
-    int
-    {0123456789// `tick` ""quote"" 'q'
-: u8x
-    ,
-    0123456789
-    :  tag
-    ,	} , @lengthOf(A )
-repeat
-f32 body `a\` ,// trailing space 
-i64	rootA
-    // packet A { u8 x, }
-    , @tag(007 ) match // @lengthOf(
-Logon as metadata
-    {
-[""a	b"", // `tick` ""quote"" 'q'
-65535
-, ""abc"", 3 ,
-10 , ""\" ++ [233]%N ++ runes_of_ascii """
-]
-    // packet A { u8 x, }
-    :u128, 7
-: // packet A { u8 x, }
-zchar, 7 : stringy
-    , 007
-    :  string_ , """" : //x
-a1 , }
-,// c
-i8
-lengthOf// trailing space 
-, float64 pack @calculatedFrom(""" ++ [128512]%N ++ runes_of_ascii """
-) ,  repeatCount @calculatedFrom(
-""// no comment"") , float // c
-string_ , @leftPad // c
-(
-    '0' ) @calculatedFrom( ""a	b"" )@calculatedFrom( ""\" ++ [233]%N ++ runes_of_ascii """ ) // `tick` ""quote"" 'q'
-match
-    Logon as
-    // @lengthOf(
-    msg_type {	255 : roots, 255: x_y_z
-// c
-// packet A { u8 x, }
-,	""it's""  :
-len,[00 ,
-    // packet A { u8 x, }
-    42
-    , ""\n"" ,007
-    , ""1""
-,//
-""a\\"" , ""a\\""] :
-f32a [
-    42,	""a	b""
-/// triple
-//
-]  :
-    Header, [ """" , ""\" ++ [233]%N ++ runes_of_ascii """// `tick` ""quote"" 'q'
-]
-    : //
-tag , } , // packet A { u8 x, }
-int , }
-    options // c
-{uint8x = // @lengthOf(
-""\n"" ;}
-")).
-Eval vm_compute in ("<<<M2012>>>" ++ check (runes_of_ascii "  options
-
-    { StringPrefixLenType = u16
-
+    // c1
+LittleEndian = // c3a
+  // c3b
+false
+    // c4
+; // c5a
+  // c5b
+StringPrefixLenType // c6
+= // c7a
+  // c7b
+u16
+    // c8
+; // c9a
+  // c9b
+ArrayPrefixLenType = // c11
+u16 // c12a
+  // c12b
 ;
-	ArrayPrefixLenType
-    =u16 
-;
-	}
-
-    packet
-SampleBinary
-{ uint16 MsgType
-
-    `" ++ [28040; 24687; 31867; 22411]%N ++ runes_of_ascii "`
-    ,  u16 
-BodyLenght @lengthOf(  Body
-)
-
-    `" ++ [28040; 24687; 20307; 38271; 24230]%N ++ runes_of_ascii "`
-,
-
-match
-    MsgType  as  Body { 1
-:Logon,
-2
-	: Logout ,3
-:
-	Heartbeat
-    ,	4
-
-:
-
-RiskControlRequest  ,  5  :
-
-    RiskControlResponse
-
-,}
-    ,@calculatedFrom(
-""CRC32""	)
-u32 Ckecksum `" ++ [26657; 39564; 21644]%N ++ runes_of_ascii "` ,
-
-    }packet Logon{
-	@leftPad ('0' 
-)char[10  ]
-
-    UserName
-	`" ++ [29992; 25143; 21517]%N ++ runes_of_ascii "`
-    ,
-string
-
-Password
-	`" ++ [23494; 30721]%N ++ runes_of_ascii "`,
-
-    uint64 ClientId`" ++ [23458; 25143; 31471]%N ++ runes_of_ascii "ID` 
-,
-
-u16	HeartbeatInterval
-
-`" ++ [24515; 36339; 38388; 38548]%N ++ runes_of_ascii "`
-,
-}
-packet
-
-Logout
-{@rightPad  (
-
-'0'
-	)char[
-    10] 
-UserName`" ++ [29992; 25143; 21517]%N ++ runes_of_ascii "` 
-,	uint64
-ClientId`" ++ [23458; 25143; 31471]%N ++ runes_of_ascii "ID` ,
-}
-
-packet	Heartbeat
-{
-
-    }packet 
-RiskControlRequest{string
-    UniqueOrderId
-    `" ++ [21807; 19968; 35746; 21333; 21495]%N ++ runes_of_ascii "`
-    ,char[
-
-    16 
-]ClOrdID
-	`" ++ [23458; 25143; 35746; 21333; 21495]%N ++ runes_of_ascii "`
-
-,char[
-	3 ] MarketID 
-`" ++ [24066; 22330]%N ++ runes_of_ascii "id` ,  char[ 
-12
-    ] SecurityID`" ++ [35777; 21048; 20195; 30721]%N ++ runes_of_ascii "` 
-, char
-    Side`" ++ [20080; 21334; 26041; 21521]%N ++ runes_of_ascii "`,
-char
-OrderType`" ++ [35746; 21333; 31867; 22411]%N ++ runes_of_ascii "` , u64
-
-Price `" ++ [20215; 26684]%N ++ runes_of_ascii "`	, u32
-Qty`" ++ [25968; 37327]%N ++ runes_of_ascii "`
-
-    ,
+    // c13
+FixedStringPadFromLeft
+    // c14
+= // c15a
+  // c15b
+false ; FixedStringPadChar // c18a
+  // c18b
+= ' '
+    // c20
+; // c21a
+  // c21b
+} // c22
+packet // c23a
+  // c23b
+Heartbeat // c24
+{ // c25a
+  // c25b
+i32
+    // c26
+f1 , // c28
+} packet Cancel // c31a
+  // c31b
+{ char[] Note , // c35a
+  // c35b
+} packet // c37a
+  // c37b
+Fill // c38a
+  // c38b
+{ // c39
+u32 price ,
+    // c42
+float64 Ref , // c45
+zchar[ // c46
+8 ]
+    // c48
+tag7 // c49a
+  // c49b
+, // c50
 repeat
-    string
-ExtraInfo
-
-    `" ++ [38468; 21152; 20449; 24687]%N ++ runes_of_ascii "`
-	, repeat	SubOrder	{ char[ 16  ] ClOrdID`" ++ [23376; 35746; 21333; 21495]%N ++ runes_of_ascii "`, u64
-    Price
-
-    `" ++ [23376; 35746; 21333; 20215; 26684]%N ++ runes_of_ascii "`	, u32
-	Qty
-`" ++ [23376; 35746; 21333; 25968; 37327]%N ++ runes_of_ascii "` , } ,} packet
-RiskControlResponse{ string
-UniqueOrderId  `" ++ [21807; 19968; 35746; 21333; 21495]%N ++ runes_of_ascii "`
+    // c51
+Cancel ,
+    // c53
+int64 // c54
+Acct // c55a
+  // c55b
+, // c56a
+  // c56b
+} // c57
+packet Quote { // c60a
+  // c60b
+@rightPad // c61a
+  // c61b
+( // c62
+'0' // c63
+) char[ // c65a
+  // c65b
+12 ] // c67
+count , char[]
+    // c70
+seqNo // c71
+, // c72
+} // c73
+root
+    // c74
+packet // c75
+Party
+    // c76
+{ // c77a
+  // c77b
+Fill
+    // c78
 ,
-    i32 Status  `" ++ [29366; 24577]%N ++ runes_of_ascii "` ,  string
-
-    Msg
-
-`" ++ [32467; 26524; 20449; 24687]%N ++ runes_of_ascii "`  ,
-
-repeat	Detail , 
-} packet
-
-    Detail
-	{
-
-    string 
-RuleName  `" ++ [35268; 21017; 21517; 31216]%N ++ runes_of_ascii "` , u16 Code 
-`" ++ [21407; 22240; 20195; 30721]%N ++ runes_of_ascii "`
-
-,}
-")).
-Eval vm_compute in ("<<<M245>>>" ++ check (runes_of_ascii "packet As { @lengthOf( // c
-u8x )
-    repeat u32 T ,
-string Foo@calculatedFrom(
-""it's"" ) `doc`  , @tag(
-// a // b
-// " ++ [27880; 37322]%N ++ runes_of_ascii "
-00) //
-@tag( 42 )	repeatCount { packetx { repeat// @lengthOf(
-f64 x_y_z
-    `doc` //x
+    // c79
+InMsgkind30 { repeat u16 // c83
+Ref ,
+    // c85
+repeat InCount61 // c87
+{ repeat i8 // c90
+sym
+    // c91
 ,
-repeat
-    char[65535
-] crc ,} ,
-    u16 A , o @lengthOf( MetaDataX)  `// not a comment`
-    , repeat string  BodyLength `
-`
-    /// triple
-    , }, repeatCount
-@lengthOf( chars)
-,  match //	t
-uint8x
-    as As  {007 :
-Packet """"  : Header 3
-:zchar 7
-// packet A { u8 x, }
-// " ++ [27880; 37322]%N ++ runes_of_ascii "
-:
-u128 , [ 4294967296 ,	""x y"" // " ++ [128512]%N ++ runes_of_ascii " emoji
+    // c92
+char[]
+    // c93
+Ref
+    // c94
+, repeat // c96a
+  // c96b
+char[ // c97
+4
+    // c98
+] Qty // c100
+, // c101
+repeat // c102a
+  // c102b
+Heartbeat
+    // c103
+, } ,
+    // c106
+u32 // c107a
+  // c107b
+venue ,
+    // c109
+uint16 Flags // c111
+,
+    // c112
+} , u8
+    // c115
+Px // c116a
+  // c116b
+, // c117
+repeat // c118
+u16 // c119a
+  // c119b
+Side2 // c120a
+  // c120b
+, // c121a
+  // c121b
+@rightPad (
+    // c123
+'0' // c124a
+  // c124b
+) // c125a
+  // c125b
+char[
+    // c126
+10
+    // c127
+] // c128
+Qty // c129a
+  // c129b
+, @rightPad ( '\x00' ) // c134a
+  // c134b
+char[
+    // c135
+1 // c136
 ]
-:
-crc
-[ ""1"" ,
-    00]:
-//x
-// @lengthOf(
-int ,	}
+    // c137
+clOrdID // c138a
+  // c138b
 ,
-@lengthOf( Foo ) repeat // " ++ [128512]%N ++ runes_of_ascii " emoji
-u
-{string float
-// packet A { u8 x, }
-/// triple
-,  string matchKey
-    @calculatedFrom( ""it's"" // " ++ [128512]%N ++ runes_of_ascii " emoji
-)  `it's` ,
-    repeat Packet repeatCount
-    ,
-    }, @lengthOf( T)
-A
+    // c139
+u8 // c140a
+  // c140b
+Tail // c141a
+  // c141b
+, match // c143a
+  // c143b
+Tail as // c145a
+  // c145b
+Body
+    // c146
+{ // c147
+[ // c148
+159 // c149a
+  // c149b
+,
+    // c150
+182 // c151
+] : Quote , // c155
+155 // c156
+:
+    // c157
+Heartbeat // c158
+,
+    // c159
+178 // c160a
+  // c160b
+: // c161a
+  // c161b
+Fill
+    // c162
+, 49 : Cancel // c166a
+  // c166b
+, // c167a
+  // c167b
+} , // c169a
+  // c169b
+u16 // c170a
+  // c170b
+Ref
+    // c171
+@calculatedFrom( // c172a
+  // c172b
+""CRC32""
+    // c173
+) // c174a
+  // c174b
+, } // c176
+")).
+Eval vm_compute in ("<<<M4357>>>" ++ check (runes_of_ascii "packet roots {
+    f64 len `crlf
+        line`,
+    @calculatedFrom(""x y"")
     //x
-    @lengthOf( rootA // c
-) `` ,
-    repeatCount // " ++ [128512]%N ++ runes_of_ascii " emoji
-@calculatedFrom( ""packet"" ) , char[] x
-// `tick` ""quote"" 'q'
-// packet A { u8 x, }
-@calculatedFrom( ""abc"" ) `crlf
-line` , }packet
-i8i8
-// c
-// trailing space 
-{} options{ MetaDataX=true ;//x
-charz	=
-    true ; }
-")).
-Eval vm_compute in ("<<<M1847>>>" ++ check (runes_of_ascii "
-
-  packet 
-options1
-{
-
-repeat
-matchKey`doc`
-
-    ,  char[]
-string_ 
-// " ++ [27880; 37322]%N ++ runes_of_ascii "
-    	`
-`
-, 	 // packet A { u8 x, }
-    uint16
-T
-    , 
-repeatCount
-_x ,
-} packet  msg_type	{ @lengthOf(  Pad
-)
-
-asx
-	@calculatedFrom( 
-""\" ++ [233]%N ++ runes_of_ascii """
-)
-,  @tag( 
-4294967296
-
-) Logon
-    `a\`
-,
-@tag( 0
-	) crc
-@lengthOf( charz// " ++ [128512]%N ++ runes_of_ascii " emoji
-    	)	`u8 x,`
-,char[
-	0 
-]f32a  // " ++ [128512]%N ++ runes_of_ascii " emoji
-,
-
-u8
-    A
-
-`line1
-line2`
-,
-	Z9_
-
-    u 
-`{ , }`
-	,repeat
-uint8x`" ++ [28040; 24687; 31867; 22411]%N ++ runes_of_ascii "`,
-
-int8	Packet@calculatedFrom( ""{,}"" )
-	,  
-  // packet A { u8 x, }
-  } packet
-A 
-{ 
-    // trailing space 
-// trailing space 
-
-  @tag(
-3	)	@tag(  
-      /// triple
-	1
-
-) u16
-    A // c
-  ,
-@tag(
-
-1 )
-match
-
-//
-      // @lengthOf(
-  roots
-	as
-	pack {	// c
-	[""CRC32""
-]
-	: 
-i8i8""a\\""	: trueish
-,[""{,}"",
-	""" ++ [28040; 24687]%N ++ runes_of_ascii """
-	]
-:
-
-    falsey
-	// `tick` ""quote"" 'q'
-    } // a // b
-		,@rightPad // packet A { u8 x, }
-
-(	' ')
-
-int16
-
-    Packet `
-` , // `tick` ""quote"" 'q'
-	  repeat
-    zchar[1
-]
-	Pad
-
-    ,// a // b
-}
-
-")).
-Eval vm_compute in ("<<<M17>>>" ++ check (runes_of_ascii "  root
-//
-// `tick` ""quote"" 'q'
-packet lengthOf {repeat char[]asx`// not a comment` // trailing space 
-,	lengthOf{ string options1	, char[] A @calculatedFrom( ""\n"" )
-    ,	int16 trueish , },repeat  int16	stringy  , string Logon `{ , }`
-, @lengthOf(	metadata )
-match trueish	as
-    Foo { 00
-:
-T , 7
-: Z9_ , } ,
-string_ a1
-`" ++ [28040; 24687; 31867; 22411]%N ++ runes_of_ascii "`// packet A { u8 x, }
-, } packet zchar { @calculatedFrom(
-    ""x y"" //x
-) repeatCount`
-`, match
-    //
-    stringy as u {255 // `tick` ""quote"" 'q'
-:charz } , zchar[ 0123456789]
-    // a // b
-    Z9_
-@lengthOf(
-    crc )
-`it's` , @leftPad
-    ( '\x00' )zchar[
-    0 ]rootA @calculatedFrom( ""CRC32"" ) , @lengthOf( leftPad )
-    // packet A { u8 x, }
-    Foo @calculatedFrom(
-""{,}"" ) ,
-uint32 Foo
-`// not a comment` , f32 float , repeat matchKey ,
-Logon @lengthOf(
-    rootA
-) `" ++ [28040; 24687; 31867; 22411]%N ++ runes_of_ascii "` ,
-    }
-")).
-Eval vm_compute in ("<<<M2025>>>" ++ check (runes_of_ascii "root packet stringy {
-    repeat u16 falsey `
-    `,
-    u16 Pad,
-    @lengthOf(x)
-    Logon {
-        repeat zchar[65535] Packet `it's`,
-    },
-}
-
-packet len {
-    @leftPad()
-    repeat metadata {
-        match asx as asx {
-            ""a\\"" : f32a,
+    u128 {
+        match roots as As {
+            [""" ++ [233]%N ++ runes_of_ascii "t" ++ [233]%N ++ runes_of_ascii """, 65535, 007] : msg_type,
+            4294967296 : Packet,
+            42 : As,
+            ""// no comment"" : BodyLength,
+            65535 : int,
         },
     },
-    uint16 falsey,
-    body,
-    repeat string lengthOf `say ""hi""`,
-}
-
-packet i64_ {
-    x,
-    @lengthOf(i64_)
-    @tag(7)
-    // `tick` ""quote"" 'q'
+    @lengthOf(int)
+    char[0] Z9_,
+    repeat charz {
+        zchar[0] options1 `line1
+                line2`,
+    },
+    repeat char[] msg_type `
+        `,
     @calculatedFrom("""")
-    repeat zchar[1] i8i8,
-    i64 i64_ @calculatedFrom(""\" ++ [233]%N ++ runes_of_ascii """) `line1
-    line2`,
-    float `tab	here`,
-    @calculatedFrom(""" ++ [128512]%N ++ runes_of_ascii """)
-    char[] Logon ``,
-    match leftPad as stringy {
-        0 : float,
-        ""\n"" : Pad,
-    },
-    i8i8 @lengthOf(roots),
+    @rightPad()
+    _x len ``,
 }
 
-root packet i8i8 {
-    tag @lengthOf(T) `" ++ [28040; 24687; 31867; 22411]%N ++ runes_of_ascii "`,
-}")).
-Eval vm_compute in ("<<<M1838>>>" ++ check (runes_of_ascii "packet rootA {
-    @tag(3)
-    zchar[00] x_y_z `" ++ [28040; 24687; 31867; 22411]%N ++ runes_of_ascii "`,
-    _x,
-    // a // b
-    float64 A @lengthOf(u8x),
-    u8 rootA `line1
+MetaData Pad {
+    uint64 _x,
+}
+
+packet Foo {
+    @calculatedFrom(""a\""b"")
+    u16 asx `100% of %d`,
+    @rightPad('0')
+    zchar[007] MetaDataX @lengthOf(int) `line1
         line2`,
-    zchar[7] stringy,
-    match Header as f32a {
-        ""\" ++ [233]%N ++ runes_of_ascii """ : o,
-        [
-            4294967296, 7, 4294967296, ""packet"", ""a	b"",
-            ""CRC32"", 7, ""a	b""
-        ] : repeatCount,
-        ""a\""b"" : Header,
-        [""a\""b""] : crc,
-        [007, 007, ""abc""] : metadata,
-        4294967296 : chars,
+    A @calculatedFrom(""" ++ [28040; 24687]%N ++ runes_of_ascii """) `// not a comment`,
+    @rightPad()
+    match i8i8 as string_ {
+        255 : i8i8,
+        """ ++ [233]%N ++ runes_of_ascii "t" ++ [233]%N ++ runes_of_ascii """ : As,
+        42 : T,
     },
-    @tag(1)
-    i8 matchKey `a\`,
-    // @lengthOf(
-    // " ++ [128512]%N ++ runes_of_ascii " emoji
-    @lengthOf(body)
-    tag,
-    @lengthOf(matchKey)
-    @lengthOf(o)
-    @lengthOf(pack)
-    repeat u {
-        calculatedFrom @lengthOf(falsey),
-    },
-}")).
-Eval vm_compute in ("<<<M1933>>>" ++ check (runes_of_ascii "// top
-	packet
-
-// c0
-  trueish 
-        // c1
-
-{
-    // c2
-
-repeat
-// c3
-
-u32
-	    // c4
-MetaDataX
-	// c5
-    	`doc` 
-	    // c6
-  , 
-	// c7
-Header 
-        // c8
-		{ 
-	    // c9
-packetx 
-// c10
-		o 
-      // c11
-      `u8 x,` 
-// c12
-	,  
-  // c13
-		} 
-
-// c14
-  , 
-	    // c15
-
-@leftPad
-    // c16
-
-(
-        // c17
-
-  '\x00'
-
-    // c18
-  	) 
-// c19
-
-repeat
-    // c20
-  char[ 
-	// c21
-
-0123456789
-        // c22
-
-	] 
-
-// c23
-	repeatCount
-    // c24
-, 
-// c25
-  } 
-
-// c26
-
-	packet  
-      // c27
-		Packet  
-      // c28
-{ 
-
-// c29
-      } 
-        // c30
-")).
-Eval vm_compute in ("<<<M1198>>>" ++ check (runes_of_ascii "// top
-packet
-    // c0
-trueish
-    // c1
-{
-    // c2
-repeat
-    // c3
-u32
-    // c4
-MetaDataX
-    // c5
-`doc`
-    // c6
-,
-    // c7
-Header
-    // c8
-{
-    // c9
-packetx
-    // c10
-o
-    // c11
-`u8 x,`
-    // c12
-,
-    // c13
+    @calculatedFrom(""abc"")
+    @leftPad(' ')
+    @leftPad()
+    // " ++ [27880; 37322]%N ++ runes_of_ascii "
+    float32 lengthOf,
 }
-    // c14
-,
-    // c15
-@leftPad
-    // c16
-(
-    // c17
-'\x00'
-    // c18
-)
-    // c19
-repeat
-    // c20
-char[
-    // c21
-0123456789
-    // c22
+
+root packet tag {
+    // a // b
+    char[007] MetaDataX @calculatedFrom(""packet""),
+    @leftPad()
+    repeat u16 i64_,
+    @rightPad('0')
+    repeat uint32 matchKey `crlf
+        line`,
+    o {
+        matchKey {
+            repeat zchar[0123456789] BodyLength,
+            metadata,
+            u @lengthOf(rootA) `two words`,
+            uint8 u128 @lengthOf(repeatCount) `tab	here`,
+        },
+        match options1 as asx {
+            [
+                ""\n"", ""\n"", ""abc"", ""`tick`"", ""x y"",
+                1, ""packet""
+            ] : pack,
+            255 : u128,
+            [""\" ++ [233]%N ++ runes_of_ascii """, ""packet"", 255, ""abc"", ""a\\""] : Z9_,
+        },
+        falsey {
+            match rootA as u8x {
+                [""a\\""] : T,
+                ["""", """ ++ [128512]%N ++ runes_of_ascii """] : Pad,
+                // " ++ [27880; 37322]%N ++ runes_of_ascii "
+                3 : int,
+                1 : leftPad,
+                10 : int,
+            },
+        },
+    },
+    repeat o matchKey,
+}/// triple")).
+Eval vm_compute in ("<<<M4371>>>" ++ check (runes_of_ascii "
+
+  MetaData
+
+msg_type
+    {
+    char[] 
+
+// trailing space 
+
+  Logon `say ""hi""`,
+}MetaData
+a1 { a1	options1 
+,zchar[
+10 
 ]
-    // c23
-repeatCount
-    // c24
-,
-    // c25
-}
-    // c26
-packet
-    // c27
-Packet
-    // c28
-{
-    // c29
-}
-    // c30
-")).
-Eval vm_compute in ("<<<M1426>>>" ++ check (runes_of_ascii "  options
-    { LittleEndian 
-=false
+    uint8x `two words`
+, asx
 
-    ; StringPrefixLenType 
-=
+As
 
-u32 
-;
-ArrayPrefixLenType =u16
-	;}	packet
-	Party {
-@leftPad(
-'0'
+    ,
 
-)  char[
-    12 ]
-	Ref	, repeat
-char[  6	]
-x
+    char[
+	65535 ]
+tag
 ,
 
-    }  packet Logon  { uint32	clOrdID
+uint8x
+f32a  `a\` 
 ,
+    zchar[
+007
+]
 
-Party
+    calculatedFrom
+	,
+
+    } MetaData 
+lengthOf {
+	char[] metadata,
+
+} root packet chars
+	{
+@tag(
+	7 
+) f32a
+	,@rightPad ( ) x {
+char
+    tag	@calculatedFrom(
+
+    ""`tick`""
+
+) `crlf
+line` ,
+
+char[]
+	u8x @calculatedFrom(
+
+    ""CRC32""	)
+,
+	repeat Pad
+
+Logon
 , 
 }
+,@calculatedFrom(
 
-    root
-    packet Ack
+""1""
+)	// @lengthOf(
+    _x _x``
+,
+}
+        // trailing space 
+packet
+
+tag { int64
+len @calculatedFrom(
+    ""a\\""
+)
+`line1
+line2`
+	,
+@tag(
+	7 )
+tag ,
+
+    @lengthOf(  i64_  )uint16 T, f64
+
+    falsey @lengthOf(
+o
+    ) ,@tag(
+	    //
+  // @lengthOf(
+  0
+	    // packet A { u8 x, }
+    )
+match o
+as
+
+// `tick` ""quote"" 'q'
+  options1{
+007
+
+    : Logon,
+	[255, 1 ]
+
+    : uint8x
+
+    , 
+[
+	""a\\""
+    ,
+""// no comment"" ] :
+
+//x
+	// `tick` ""quote"" 'q'
+    rootA
+, 
+255
+:  T
+
+, [""" ++ [233]%N ++ runes_of_ascii "t" ++ [233]%N ++ runes_of_ascii """  ] :f32a
+}
+,  @tag(	4294967296
+)
+@tag( 4294967296) @rightPad
+	(
+	) match 
+asx
+	as As { 65535 :repeatCount,	""`tick`"" :
+
+    tag
+
+, """"
+
+:	// 50% %s
+
+	matchKey,  // packet A { u8 x, }
+    ""packet"":As
+7:metadata 
+""" ++ [128512]%N ++ runes_of_ascii """ : Z9_}
+, zchar { char[]
+trueish 
+,u16// c
+    	o
+
+`doc`	// `tick` ""quote"" 'q'
+  , char[ 42 ]  
+      // 50% %s
+
+//x
+	calculatedFrom 	 // " ++ [27880; 37322]%N ++ runes_of_ascii "
+  @lengthOf( metadata
+
+)	,int16 
+	// c
+		u8x , }
+	,
+
+    @leftPad  (
+    // a // b
+// `tick` ""quote"" 'q'
+  '\x00')
+	@leftPad(
+) repeat uint16 MetaDataX`it's`, 
+
+//x
+      // @lengthOf(
+    	}")).
+Eval vm_compute in ("<<<M167>>>" ++ check (runes_of_ascii "packet
+u8x { float64 tag
+    ,repeat
+    string As`it's` ,
+@calculatedFrom(
+    """ ++ [128512]%N ++ runes_of_ascii """ ) rootA
+    , uint32 roots `" ++ [28040; 24687; 31867; 22411]%N ++ runes_of_ascii "`	, x_y_z @lengthOf( stringy  ),
+@calculatedFrom(	""" ++ [128512]%N ++ runes_of_ascii """ // " ++ [27880; 37322]%N ++ runes_of_ascii "
+)	repeat
+u32 int `tab	here` ,
+x @calculatedFrom(""" ++ [233]%N ++ runes_of_ascii "t" ++ [233]%N ++ runes_of_ascii """	) `line1
+line2`, }options { // c
+Pad = '\x00' float =0123456789
+// trailing space 
+// 50% %s
+body = uint64 ;i8i8  =
+""a\""b""
+// " ++ [128512]%N ++ runes_of_ascii " emoji
+//	t
+;	x_y_z = ""packet"" // c
+;// " ++ [128512]%N ++ runes_of_ascii " emoji
+} root
+packet
+// a // b
+// c
+trueish {repeat
+uint16 x `100% of %d`
+    // a // b
+    , uint32 // " ++ [128512]%N ++ runes_of_ascii " emoji
+BodyLength , // @lengthOf(
+@calculatedFrom(""" ++ [233]%N ++ runes_of_ascii "t" ++ [233]%N ++ runes_of_ascii """ ) @rightPad	('\x00' )  @tag(255 )
+    chars
+    `
+` , char[ 3 ] packetx //	t
+@lengthOf( matchKey ) ,
+    repeat
+    zchar[ 1
+] u128`two words` ,int64 pack// a // b
+,
+    string As `line1
+line2` ,
+    @rightPad
+    // c
+    ( '\x00' )@rightPad
+    ( // " ++ [27880; 37322]%N ++ runes_of_ascii "
+'0' )
+@tag( //x
+10)	match  o
+    as Logon {
+00 :T ,
+[""a	b""
+]:Packet
+, [""" ++ [28040; 24687]%N ++ runes_of_ascii """
+, ""a\""b""// packet A { u8 x, }
+, ""packet""
+, 4294967296 , 10 ,//
+4294967296
+    // " ++ [27880; 37322]%N ++ runes_of_ascii "
+    ,0
+,
+007 /// triple
+] : // " ++ [128512]%N ++ runes_of_ascii " emoji
+trueish	""\" ++ [233]%N ++ runes_of_ascii """ : crc ""// no comment"" :	rootA 42 /// triple
+:// `tick` ""quote"" 'q'
+msg_type } ,// " ++ [128512]%N ++ runes_of_ascii " emoji
+match
+u128 as u {255 :BodyLength ,
+} ,	match Pad as
+    trueish{4294967296
+    // @lengthOf(
+    : matchKey [ ""it's"" ,
+    //x
+    10 ,
+65535 ,
+""1"" ]
+    :len 7 : len
+    // packet A { u8 x, }
+    , ""a	b""
+:roots	, } // @lengthOf(
+, }
+")).
+Eval vm_compute in ("<<<M1319>>>" ++ check (runes_of_ascii "  packet tag
+{stringy  @calculatedFrom(
+""a\\""
+    )
+`` // trailing space 
+, @calculatedFrom( """ ++ [128512]%N ++ runes_of_ascii """
+    ) zchar[
+    007 ]  uint8x
+    , zchar[255
+] matchKey ,@leftPad ('\x00' )
+char[]
+tag	`{ , }` ,match len as stringy { ""\" ++ [233]%N ++ runes_of_ascii """: calculatedFrom
+    //
+    , }
+, Packet @lengthOf( i64_
+    ) ,/// triple
+repeat uint16
+leftPad `" ++ [233]%N ++ runes_of_ascii "` , }
+/// triple
+// 50% %s
+root packet a1 {  repeat T
+// @lengthOf(
+// 50% %s
+options1`{ , }` , @lengthOf( x_y_z ) @calculatedFrom(	""// no comment"" ) @tag(007
+    ) lengthOf{
+zchar[ 10 ]Pad `{ , }` ,chars { repeat char[4294967296 ] int ,  string repeatCount , char[]
+    stringy @lengthOf( repeatCount ),o ,},
+    uint8 roots
+    @lengthOf( uint8x ) ,
+    }, asx `100% of %d`	,  repeat	repeatCount ``
+,@rightPad (
+    ) @calculatedFrom(
+    //
+    ""a\\"")
+@lengthOf( u128) repeat asx _x`// not a comment`
+,	@lengthOf(
+    Foo) char[ 1	]
+trueish// @lengthOf(
+@lengthOf(_x
+) ,@tag(3
+) char[] chars
+// trailing space 
+// " ++ [27880; 37322]%N ++ runes_of_ascii "
+@lengthOf( options1 ) ,@calculatedFrom( ""// no comment""
+    // @lengthOf(
+    ) Pad uint8x //	t
+`crlf
+line` , @tag(007
+    )repeat Packet Pad
+,  @tag( 7 )repeat int32 MetaDataX `// not a comment`
+    , }
+MetaData Z9_
+{
+    // c
+    uint32 int
+`a\`
+, char[] repeatCount
+, _x falsey `tab	here` ,
+    } 	 ")).
+Eval vm_compute in ("<<<M3549>>>" ++ check (runes_of_ascii "// top
+options // c0a
+  // c0b
+{
+    // c1
+StringPrefixLenType // c2
+= // c3a
+  // c3b
+u8 ; // c5
+ArrayPrefixLenType // c6a
+  // c6b
+=
+    // c7
+u16
+    // c8
+; // c9
+FixedStringPadChar = // c11
+'0' // c12a
+  // c12b
+; }
+    // c14
+packet Fill
+    // c16
+{
+    // c17
+char[ // c18
+6 // c19a
+  // c19b
+] // c20a
+  // c20b
+Acct // c21a
+  // c21b
+,
+    // c22
+u64 // c23a
+  // c23b
+venue , // c25
+} // c26
+root // c27
+packet // c28a
+  // c28b
+Logout // c29
+{ // c30
+char[]
+    // c31
+Tail , // c33
+repeat // c34
+i8 // c35a
+  // c35b
+f1 // c36a
+  // c36b
+,
+    // c37
+float64 msgKind // c39
+, // c40a
+  // c40b
+zchar[ 3 // c42
+] // c43a
+  // c43b
+Note // c44a
+  // c44b
+, uint64 // c46a
+  // c46b
+count // c47
+, @leftPad // c49
+( ' ' ) // c52
+char[ // c53
+12 // c54
+] // c55
+Px // c56
+,
+    // c57
+u32 OrderId
+    // c59
+, // c60a
+  // c60b
+u16 // c61a
+  // c61b
+tag7 // c62
+@lengthOf( // c63
+Body
+    // c64
+) ,
+    // c66
+match OrderId
+    // c68
+as // c69
+Body // c70
+{ // c71a
+  // c71b
+[ // c72
+35 // c73
+, 107 // c75
+] // c76
+:
+    // c77
+Fill , } // c80
+, u32
+    // c82
+Ref // c83
+@calculatedFrom(
+    // c84
+""CRC32"" ) // c86
+, // c87a
+  // c87b
+} // c88
+")).
+Eval vm_compute in ("<<<M456>>>" ++ check (runes_of_ascii "options{charz = f64 ; } packet int {	match x_y_z as int {	[""a\""b"" , // 50% %s
+3 ,""" ++ [128512]%N ++ runes_of_ascii """ ] : Foo , ""\" ++ [233]%N ++ runes_of_ascii """
+: //x
+pack
+, ""a	b"" : body 255
+: pack ,
+    65535
+    : float
+// packet A { u8 x, }
+// 50% %s
+[
+    """ ++ [128512]%N ++ runes_of_ascii """ ,
+    """"  ] :
+leftPad	}  , u16  T @calculatedFrom(  ""\n"" )
+, @tag( 42 ) repeat int { repeat u8 len , char[00 // trailing space 
+] options1`crlf
+line`
+    , } , repeat
+i64 charz , @leftPad( '0' )@lengthOf(
+Header )repeat
+    pack MetaDataX , @leftPad
+    ( ' ' ) @lengthOf(float  ) @tag(
+65535
+    )repeat
+//
+// c
+int16
+a1,
+repeat int { match repeatCount as zchar {  """ ++ [233]%N ++ runes_of_ascii "t" ++ [233]%N ++ runes_of_ascii """ : u8x , 0 : charz
+    ,[7 ]	:
+chars , [ ""a\""b"" , 3, 3 , """"
+    , ""a\""b""
+// trailing space 
+// 50% %s
+,
+""it's"" , 7 , 007 ]:
+    msg_type ,
+    //	t
+    }
+    // a // b
+    , char[255
+] As
+    @calculatedFrom( ""1""
+)
+    , } ,
+    } packet
+    pack { falsey
+x , @tag(	10 )	string	i8i8 @lengthOf( pack
+    )	,
+@leftPad ( '0') repeat pack`crlf
+line` ,@calculatedFrom( """ ++ [128512]%N ++ runes_of_ascii """
+    )
+@rightPad ( )i8i8
+    @calculatedFrom( ""`tick`"" ) , } options// `tick` ""quote"" 'q'
+{charz =  '\x00' uint8x
+    ='\x00' ;As = '0' }
+")).
+Eval vm_compute in ("<<<M1298>>>" ++ check (runes_of_ascii "packet //
+u { i8i8 @lengthOf(  rootA
+) `// not a comment` ,
+    @calculatedFrom( """ ++ [28040; 24687]%N ++ runes_of_ascii """ )
+    @tag( 0123456789)@tag(
+    7)
+    tag
+    @calculatedFrom(
+""`tick`"" ) `u8 x,`// packet A { u8 x, }
+, match string_
+    as Pad { ""\" ++ [233]%N ++ runes_of_ascii """ : u
+// 50% %s
+// a // b
+""`tick`"" : leftPad ,
+255 : metadata
+    ,
+//x
+// `tick` ""quote"" 'q'
+10 :Header , 10 :  msg_type// " ++ [27880; 37322]%N ++ runes_of_ascii "
+, [
+""// no comment"", """"
+,
+    ""x y"" ,
+    0 ,""// no comment"" ]: float, },@calculatedFrom(
+    """" )
+    @calculatedFrom( ""{,}""
+) Header {uint64 pack `" ++ [28040; 24687; 31867; 22411]%N ++ runes_of_ascii "`
+    , leftPad  {
+    zchar[	007 ]
+trueish @lengthOf(	BodyLength ) , repeat	lengthOf `
+` , // trailing space 
+match Foo as
+    Pad	{
+""\n"" : lengthOf
+[ ""abc""
+,""1"" ] : metadata,// packet A { u8 x, }
+65535 : zchar [""abc"",
+    42
+    ] : string_// c
+""1"" : falsey ,} ,
+char[ 65535 ] o
+    , }
+    ,} , }
+    options
+    //	t
+    { // a // b
+lengthOf =
+true // @lengthOf(
+;
+    rootA = true repeatCount = '\x00'A = false }
+    options {u
+    =""packet"" // " ++ [27880; 37322]%N ++ runes_of_ascii "
+}	options
+    {
+repeatCount
+=
+""// no comment"" ; }
+
+")).
+Eval vm_compute in ("<<<M3594>>>" ++ check (runes_of_ascii "MetaData x_y_z {
+    i16 Pad `line1
+        line2`,
+}
+
+packet calculatedFrom {
+    f64 options1 @calculatedFrom(""a\""b"") `it's`,
+    @leftPad()
+    @lengthOf(roots)
+    x {
+        // 50% %s
+        repeat Header `it's`,
+        char[0] calculatedFrom @lengthOf(zchar),// " ++ [128512]%N ++ runes_of_ascii " emoji
+        repeat i8 f32a,
+    },
+    char[10] int,
+    @leftPad()
+    int16 Foo @lengthOf(Z9_),
+    @calculatedFrom(""x y"")
+    float64 i8i8,
+    u8x @calculatedFrom(""packet""),
+    @calculatedFrom(""\n"")
+    char[65535] stringy,
+    zchar[3] MetaDataX,
+    repeat uint64 float,
+}// trailing space 
+
+packet tag {
+    u @calculatedFrom(""1"") `it's`,// c
+    zchar[0] i64_ @lengthOf(i64_),
+    uint8 repeatCount,
+    @lengthOf(leftPad)
+    string int @lengthOf(As),
+    @tag(65535)
+    string i64_,
+}
+
+packet lengthOf {
+    @rightPad('\x00')
+    o {
+        // 50% %s
+        int @calculatedFrom(""a	b"") `doc`,
+    },
+}
+
+root packet Logon {
+    @tag(3)
+    Z9_,
+}// `tick` ""quote"" 'q'")).
+Eval vm_compute in ("<<<M1302>>>" ++ check (runes_of_ascii "packet zchar {
+repeat // packet A { u8 x, }
+char[
+10 ] /// triple
+repeatCount
+`line1
+line2`
+, zchar[ 10 ]
+// packet A { u8 x, }
+//
+rootA @calculatedFrom( ""packet"" ), f32 crc `{ , }` // trailing space 
+,repeat char[ 255 ] msg_type  ,}
+options { u8x =	""\n"" ; }  packet trueish {repeat // a // b
+i64_	,
+@calculatedFrom( ""// no comment"" // trailing space 
+)
+    // `tick` ""quote"" 'q'
+    @tag(
+    // @lengthOf(
+    4294967296
+) repeat
+matchKey { As
+`
+`, u8x	`it's`, Packet @lengthOf(	T )// `tick` ""quote"" 'q'
+`a\`
+, }
+, // a // b
+lengthOf packetx`" ++ [28040; 24687; 31867; 22411]%N ++ runes_of_ascii "` //	t
+,  roots
+{MetaDataX len ,
+    zchar { match Packet
+// 50% %s
+// `tick` ""quote"" 'q'
+as
+MetaDataX {
+// 50% %s
+// `tick` ""quote"" 'q'
+1 : // " ++ [128512]%N ++ runes_of_ascii " emoji
+x_y_z 7
+    :
+o, 0123456789 : i64_
+,}, }
+,// a // b
+}
+, @calculatedFrom( ""// no comment"" ) repeat int16 charz`line1
+line2`	, // c
+@tag(
+    0123456789
+)
+    u
+`
+`
+    // @lengthOf(
+    ,}
+")).
+Eval vm_compute in ("<<<M1238>>>" ++ check (runes_of_ascii "MetaData
+    crc{ /// triple
+}root
+    packet
+    uint8x
+{ zchar[	10] As,MetaDataX , // 50% %s
+uint64
+Packet
+@lengthOf(uint8x //
+) ``, float32 //	t
+Foo , char[0123456789] MetaDataX
+    , repeat	char[]lengthOf , @lengthOf( T	) matchKey
+    `two words`
+    // 50% %s
+    ,
+} options
+{ roots= string
+; //
+}
+    packet trueish{} packet options1 { repeat uint32
+BodyLength `say ""hi""`	,@leftPad
+    ( // packet A { u8 x, }
+'0' ) zchar // " ++ [27880; 37322]%N ++ runes_of_ascii "
+pack `line1
+line2` ,
+    @calculatedFrom( /// triple
+""a	b""
+    )
+i8i8 , u8x@calculatedFrom(
+    """" /// triple
+)
+`{ , }` // " ++ [128512]%N ++ runes_of_ascii " emoji
+, match Logon
+    as T//	t
+{ 1 : x_y_z } , match
+    o	as  msg_type
+{
+65535
+    :
+    //x
+    a1 42 :
+    T
+} ,  @tag( 3 ) repeat o // " ++ [27880; 37322]%N ++ runes_of_ascii "
+x_y_z `// not a comment` // c
+,
+match As //x
+as
+//x
+// c
+Foo { 7 : T , } ,char[] calculatedFrom @lengthOf( metadata )	`say ""hi""` ,
+} // trailing space ")).
+Eval vm_compute in ("<<<M1334>>>" ++ check (runes_of_ascii "packet
+x { zchar[ // " ++ [27880; 37322]%N ++ runes_of_ascii "
+10]metadata @lengthOf(	tag )
+// `tick` ""quote"" 'q'
+// " ++ [27880; 37322]%N ++ runes_of_ascii "
+, @rightPad
+('0'
+    ) repeat len {  repeat char[] T , int32
+    // " ++ [27880; 37322]%N ++ runes_of_ascii "
+    asx  @lengthOf(
+msg_type )  , Logon `" ++ [233]%N ++ runes_of_ascii "` // " ++ [27880; 37322]%N ++ runes_of_ascii "
+, falsey trueish`it's`
+,}
+, repeat int16	a1 `say ""hi""` ,
+} root //	t
+packet  As{ @tag(	10  )
+    @calculatedFrom( ""CRC32"" )
+@lengthOf(
+repeatCount )  zchar[
+42
+    ]
+f32a
+    // " ++ [128512]%N ++ runes_of_ascii " emoji
+    @lengthOf( tag // 50% %s
+) `doc`
+, match x as u8x {""" ++ [128512]%N ++ runes_of_ascii """ : stringy , """ ++ [128512]%N ++ runes_of_ascii """ :
+    // 50% %s
+    rootA,
+    [ ""packet""
+, 0] : // a // b
+i8i8, [ ""`tick`""
+,255 ,""\n"" , 3 ,""\n""]
+:
+u128
+    ,[  00
+// trailing space 
+// `tick` ""quote"" 'q'
+, ""1"" , 10,""`tick`""
+    , 7 // trailing space 
+,""CRC32"" ,
+    0	] : Foo ,	""// no comment"" : o } , } root packet T{ @tag(
+65535) char[ 42/// triple
+]
+    u128  @calculatedFrom( ""`tick`"" ) ,
+} 	 ")).
+Eval vm_compute in ("<<<M4432>>>" ++ check (runes_of_ascii "packet x {
+    repeat packetx `
+    `,
+    Pad @calculatedFrom(""\" ++ [233]%N ++ runes_of_ascii """),
+    @lengthOf(falsey)
+    repeat u64 o,
+    @tag(0123456789)
+    Logon {
+        match A as u {
+            [
+                1, """ ++ [233]%N ++ runes_of_ascii "t" ++ [233]%N ++ runes_of_ascii """, 4294967296, ""a	b"", 42,
+                """ ++ [233]%N ++ runes_of_ascii "t" ++ [233]%N ++ runes_of_ascii """, """ ++ [233]%N ++ runes_of_ascii "t" ++ [233]%N ++ runes_of_ascii """, """ ++ [28040; 24687]%N ++ runes_of_ascii """
+            ] : crc,
+        },
+        char[42] metadata `{ , }`,
+        falsey,
+        BodyLength `crlf
+        line`,
+    },
+    @tag(65535)
+    repeat zchar[1] Packet,
+    @lengthOf(_x)
+    uint64 o,
+}
+
+// 50% %s
+//
+options {
+    asx = float64;
+}
+
+packet i8i8 {
+    /// triple
+    @calculatedFrom(""`tick`"")
+    // a // b
+    body {
+        zchar[0] BodyLength `doc`,
+        u `
+        `,
+    },
+}
+
+MetaData chars {
+    char[42] o,// " ++ [27880; 37322]%N ++ runes_of_ascii "
+    string_ As `" ++ [233]%N ++ runes_of_ascii "`,
+}
+
+MetaData Header {
+    i64 matchKey,
+    zchar[7] len,
+}")).
+Eval vm_compute in ("<<<M676>>>" ++ check (runes_of_ascii "//
+MetaData pack {
+    chars
+    uint8x , } packet uint8x { @lengthOf( x ) uint8 float , } root // trailing space 
+packet
+roots { char[ 65535] BodyLength @calculatedFrom( """ ++ [128512]%N ++ runes_of_ascii """ )
+, }// packet A { u8 x, }
+MetaData metadata {
+x_y_z Header
+    `" ++ [233]%N ++ runes_of_ascii "` , i8i8 tag , // a // b
+chars Z9_
+`" ++ [28040; 24687; 31867; 22411]%N ++ runes_of_ascii "`
+, zchar[ 10
+]  metadata`it's` , rootA
+    Foo, T
+MetaDataX , } packet options1 { char[42
+    ] falsey , @tag(
+    7 )
+@tag(
+    7 ) @lengthOf(a1 ) zchar,match
+len
+as i64_ // `tick` ""quote"" 'q'
+{ 10 :o
+    },
+repeat crc  , repeat len, u128 @lengthOf( Z9_
+    )	`a\`// " ++ [27880; 37322]%N ++ runes_of_ascii "
+,match tag
+    as matchKey{ [ """ ++ [128512]%N ++ runes_of_ascii """ ,
+    3, """ ++ [28040; 24687]%N ++ runes_of_ascii """]
+: trueish , }	,
+uint32 i64_ , @rightPad (
+    ' ' ) @calculatedFrom(
+    // " ++ [27880; 37322]%N ++ runes_of_ascii "
+    ""{,}"" ) @calculatedFrom(
+""a	b""
+)Foo
+tag `100% of %d`, }")).
+Eval vm_compute in ("<<<M4468>>>" ++ check (runes_of_ascii "
+
+  packet
+    f32a
+
+    {  match  /// triple
+
+zchar as
+	float{ 
+1	:BodyLength 
+,
+	""CRC32""  :
+int  }  , char[
+
+007 ]zchar
+
+    @lengthOf( 
+/// triple
+		Z9_  // " ++ [27880; 37322]%N ++ runes_of_ascii "
+    	) `" ++ [233]%N ++ runes_of_ascii "` ,// trailing space 
+    }
+root  packet
+options1
+
+    {  @lengthOf(
+
+    charz
+) 
+	    // c
+      // @lengthOf(
+
+  zchar[4294967296
+
+    ]	Packet
+``, 
+@calculatedFrom(
+
+""\" ++ [233]%N ++ runes_of_ascii """) @calculatedFrom(""a\""b"" )
+    @tag(
+
+4294967296 ) char
+
+asx ,
+	@lengthOf(  msg_type )@tag( 1
+
+)
+
+u16
+
+leftPad `u8 x,`
+	,	o{
+repeat
+int32
+
+    zchar
+        // " ++ [128512]%N ++ runes_of_ascii " emoji
+	  ,
+u128
 
     {
-    zchar[
-	2 ] f1 , u32 
-seqNo ,
+i8i8
+	rootA
+`a\`	//
+, }
+,
+} 
+,repeat	i8
+	Logon
 
-u32
+    `
+` ,@tag( 
+10
+	)	@tag(
 
-Side2 @lengthOf(
+    7
+    )
 
-Body	)
+    repeat
+
+a1
+
+u128`100% of %d`,
+packetx//	t
+	i64_ , 
+}
+
+")).
+Eval vm_compute in ("<<<M4063>>>" ++ check (runes_of_ascii "packet rootA {
+    falsey @calculatedFrom(""it's""),
+    chars @lengthOf(len),
+    @calculatedFrom(""a\""b"")
+    repeat uint8 msg_type `doc`,
+}
+
+root packet pack {
+    @tag(3)
+    metadata @lengthOf(string_) `tab	here`,
+    string_ @calculatedFrom(""" ++ [128512]%N ++ runes_of_ascii """) `line1
+        line2`,
+    @lengthOf(uint8x)
+    @lengthOf(tag)
+    @tag(00)
+    repeat uint8x {
+        repeat char metadata,
+        zchar[3] crc,
+        u64 chars @lengthOf(u) `100% of %d`,
+    },
+    @lengthOf(metadata)
+    // trailing space 
+    @calculatedFrom(""x y"")
+    @calculatedFrom("""")
+    repeat float64 Logon `it's`,
+}
+
+packet uint8x {
+    // trailing space 
+    @tag(3)
+    @tag(3)
+    u32 Packet,
+}
+// " ++ [128512]%N ++ runes_of_ascii " emoji")).
+Eval vm_compute in ("<<<M3872>>>" ++ check (runes_of_ascii "// " ++ [128512]%N ++ runes_of_ascii " emoji
+packet trueish {
+    u16 crc `line1
+        line2`,
+    // @lengthOf(
+    // 50% %s
+    roots,
+    int {
+        i64_ x_y_z,
+        u8x `a\`,
+        f32 A `it's`,
+        // `tick` ""quote"" 'q'
+    },
+    calculatedFrom,
+    char[] chars `{ , }`,
+    zchar[10] BodyLength,
+    @lengthOf(asx)
+    @rightPad('\x00')
+    @tag(10)
+    calculatedFrom Z9_ `{ , }`,
+    @lengthOf(MetaDataX)
+    repeat string calculatedFrom `it's`,
+    @tag(4294967296)
+    packetx,
+}
+
+packet Header {
+    @rightPad(' ')
+    @calculatedFrom(""" ++ [28040; 24687]%N ++ runes_of_ascii """)
+    repeat charz {
+        repeat zchar[7] i64_ `tab	here`,
+        u64 o,
+        int MetaDataX `100% of %d`,
+    },
+}")).
+Eval vm_compute in ("<<<M1362>>>" ++ check (runes_of_ascii "packet //x
+trueish { // " ++ [128512]%N ++ runes_of_ascii " emoji
+match // packet A { u8 x, }
+falsey
+    as	packetx
+{ ""// no comment"" :
+zchar
+,
+    7 :Logon// " ++ [128512]%N ++ runes_of_ascii " emoji
+, [ ""// no comment""
+//x
+// @lengthOf(
+, 65535 ,
+""1"", 0	]
+    : falsey[""" ++ [28040; 24687]%N ++ runes_of_ascii """//	t
+, 42
+, 10 ] :pack [ 007 ,
+    4294967296
+    ]: rootA , ""abc"" : len
+}// packet A { u8 x, }
+, @leftPad
+    (	' '// a // b
+) repeat  rootA
+, char[] body
+, @calculatedFrom( ""1""// " ++ [128512]%N ++ runes_of_ascii " emoji
+)
+match A//
+as	o {""1""
+    :Foo
+,
+}, @rightPad ( '\x00' )
+BodyLength, @lengthOf( uint8x
+) repeat uint32 /// triple
+msg_type /// triple
+,// " ++ [27880; 37322]%N ++ runes_of_ascii "
+uint64 trueish `" ++ [233]%N ++ runes_of_ascii "` ,
+    } packet x{ zchar[ 255] Pad @lengthOf( Logon ) , }
+")).
+Eval vm_compute in ("<<<M1326>>>" ++ check (runes_of_ascii "MetaData i64_	{ As asx`" ++ [28040; 24687; 31867; 22411]%N ++ runes_of_ascii "`,char
+Foo ,
+//	t
+// " ++ [128512]%N ++ runes_of_ascii " emoji
+}options {  }
+// 50% %s
+//
+packet i8i8
+    //	t
+    { } root packet roots { @tag(  7
+)f32 a1 `it's`,@tag( 255 )u8 Pad// c
+`" ++ [233]%N ++ runes_of_ascii "` ,
+//	t
+// packet A { u8 x, }
+@calculatedFrom(
+""a	b""	) @lengthOf(
+charz)@calculatedFrom(""\n"" ) pack
+@lengthOf( leftPad	)	, } root packet chars
+    {@lengthOf(	matchKey
+)repeat
+crc	,  zchar[ 7
+// packet A { u8 x, }
+// `tick` ""quote"" 'q'
+] roots
+`u8 x,` , @calculatedFrom(	""// no comment"" )
+    i16 x@lengthOf(A )
+, i8i8
+    { string int `
+`
+    ,
+//	t
+// 50% %s
+string
+Packet @calculatedFrom(
+""" ++ [233]%N ++ runes_of_ascii "t" ++ [233]%N ++ runes_of_ascii """ )
+, },}")).
+Eval vm_compute in ("<<<M1198>>>" ++ check (runes_of_ascii "packet asx
+// @lengthOf(
+//x
+{ @tag( 65535 ) string_ @calculatedFrom( ""CRC32""
+)	``
+,
+@calculatedFrom( ""`tick`""
+)
+    repeat
+    int { repeat
+    char[ 65535 ] Z9_ , u16 u128@lengthOf( // a // b
+o// packet A { u8 x, }
+) ``,}	,float64 zchar
+    `a\` , //	t
+@tag(
+4294967296
+    ) @calculatedFrom(""1"" ) @lengthOf( len
+    // `tick` ""quote"" 'q'
+    ) /// triple
+falsey	@lengthOf( A) `say ""hi""`  ,
+    } options // @lengthOf(
+{Header =
+    // packet A { u8 x, }
+    true falsey=""" ++ [128512]%N ++ runes_of_ascii """
+chars  = ""a\""b"" repeatCount =
+uint64
+    ; } root // c
+packet
+T
+    // c
+    { }
+")).
+Eval vm_compute in ("<<<M954>>>" ++ check (runes_of_ascii "MetaData asx {u8
+    u128`100% of %d`
+,
+} root packet
+packetx
+    {  }
+packet
+options1 {@tag(  007 )  char[	0 // a // b
+] lengthOf
+    // trailing space 
+    , char[
+    4294967296 ] rootA, @tag(
+/// triple
+//
+3 ) u @lengthOf( _x ) , i64 zchar
+    @calculatedFrom( ""\n"" ) ,
+lengthOf// trailing space 
+int,@lengthOf(
+Packet ) @lengthOf( Logon ) string f32a `tab	here` ,	repeat//x
+string packetx ,
+    @calculatedFrom( """ ++ [128512]%N ++ runes_of_ascii """)@calculatedFrom(	""\" ++ [233]%N ++ runes_of_ascii """)	repeat
+    f32a
+    // 50% %s
+    calculatedFrom ,	} root
+packet  len { }
+// trailing space 
+")).
+Eval vm_compute in ("<<<M757>>>" ++ check (runes_of_ascii "  root  packet
+u8x { }	MetaData metadata { chars As , float64 calculatedFrom `two words`  ,
+    char[ 7
+    //
+    ] rootA `" ++ [28040; 24687; 31867; 22411]%N ++ runes_of_ascii "`
+    ,	string _x , u // trailing space 
+uint8x ,
+    }  options { roots
+=zchar[ 65535 ];
+    // packet A { u8 x, }
+    T = ""a\\"" leftPad =
+00 ; BodyLength= true } root
+packet
+    o {@calculatedFrom(
+// " ++ [128512]%N ++ runes_of_ascii " emoji
+// " ++ [128512]%N ++ runes_of_ascii " emoji
+""x y"" )i64 i64_ @calculatedFrom(""packet"" ) , // trailing space 
+@tag( //
+42
+    ) string rootA @calculatedFrom(
+/// triple
+// packet A { u8 x, }
+""" ++ [128512]%N ++ runes_of_ascii """ ) ,}packet uint8x { u128	, }")).
+Eval vm_compute in ("<<<M3799>>>" ++ check (runes_of_ascii "
+options {  // c1
+		u  // c2
+	= 
+        // c3
+00
+// c4
+    	stringy// c5
+
+	= 
+    // c6
+'0' 	 // c7
+    	}  // c8a
+  // c8b
+	packet// c9a
+
+  // c9b
+  stringy  // c10
+{ // c11a
+	// c11b
+}
+    // c12
+  MetaData 	 // c13a
+
+	// c13b
+
+	repeatCount 	 // c14a
+
+// c14b
+    {
+        // c15
+	MetaDataX  
+      // c16
+	leftPad ,// c18a
+	// c18b
+  string // c19a
+	// c19b
+  body  // c20
+		`
+`// c21
+	,
+	    // c22
+		metadata  // c23a
+
+// c23b
+
+options1	// c24
+    ,
+    // c25
+} 	 // c26a
+// c26b")).
+Eval vm_compute in ("<<<M3784>>>" ++ check (runes_of_ascii "
+root
+
+    packet
+tag  {
+    repeat
+    string_
+    {
+	lengthOf
+
+{  //	t
+	int64
+	int
+@lengthOf( uint8x
+	)
+
+    `
+`
+
+    ,  // trailing space 
+	repeat
+
+    zchar[  7  ] u 
+// c
+	,  zchar[0  //	t
+      ]BodyLength
+
+    ,// `tick` ""quote"" 'q'
+} , 
+} ,
+	repeat	u8 Pad
+`line1
+line2`
+
+// 50% %s
+,
+// `tick` ""quote"" 'q'
+	//x
+@leftPad (
+' '	)
+    zchar[4294967296
+    ] // @lengthOf(
+
+  repeatCount	,
+
+repeat
+options1 {
+    float64
+rootA @lengthOf(_x	),},
+} 	 // c
+")).
+Eval vm_compute in ("<<<M630>>>" ++ check (runes_of_ascii "packet
+leftPad {/// triple
+char[]A , } packet // 50% %s
+_x
+{//	t
+A
+T , repeat char
+    falsey `100% of %d` , @calculatedFrom( """") char[]body
+    , As@lengthOf( asx )
+`u8 x,` , Foo u128
+`` ,	@lengthOf(	string_ // `tick` ""quote"" 'q'
+) string a1// `tick` ""quote"" 'q'
+`doc`, a1 `it's` ,@leftPad(' ' ) // packet A { u8 x, }
+int8 asx, char[] uint8x,	@rightPad
+(' '
+// packet A { u8 x, }
+// a // b
+) repeat
+    f64 _x
+,
+    /// triple
+    } packet crc {	}
+")).
+Eval vm_compute in ("<<<M288>>>" ++ check (runes_of_ascii "packet a1 { match asx as f32a
+{ 10  :	Z9_ 4294967296 :
+len
+// packet A { u8 x, }
+// trailing space 
+, ""`tick`"":repeatCount ""1""
+: BodyLength  0123456789:
+    As ,
+},  repeatCount
+leftPad
+    , repeat  metadata{	repeat u chars , },
+// a // b
+//x
+}	packet float { repeat x	x , repeat zchar[ 007
+    //x
+    ] i64_, u8 float
+@lengthOf( string_ ),asx //
+@calculatedFrom( ""\n""
+    ) ,
+    } options
+    { trueish // @lengthOf(
+= 65535
+    ;}")).
+Eval vm_compute in ("<<<M884>>>" ++ check (runes_of_ascii "
+packet a1 {@calculatedFrom(""`tick`""	) rootA// `tick` ""quote"" 'q'
+{ // c
+BodyLength
+// `tick` ""quote"" 'q'
+// " ++ [128512]%N ++ runes_of_ascii " emoji
+Z9_ , } ,
+    match  Foo as int
+// a // b
+/// triple
+{
+    007
+    :  x_y_z , """ ++ [128512]%N ++ runes_of_ascii """
+: // `tick` ""quote"" 'q'
+roots 0123456789 : // `tick` ""quote"" 'q'
+uint8x,} , match A as
+stringy { [ 0123456789
+    ,
+""CRC32""
+    ]: Foo , },	@rightPad (
+    '0' ) u8 Packet , u8 MetaDataX @calculatedFrom( ""`tick`""
+) , }
+
+")).
+Eval vm_compute in ("<<<M140>>>" ++ check (runes_of_ascii "packet chars { @rightPad (
+' ')uint8 Foo ,@lengthOf( // 50% %s
+uint8x) string string_	, int16 MetaDataX ,  } packet body{ i64_ @calculatedFrom( """ ++ [128512]%N ++ runes_of_ascii """  ) `tab	here` ,repeat char[
+    00 ] int `crlf
+line`,	@calculatedFrom(""`tick`""
+    // c
+    )	i8 i8i8@calculatedFrom(	""a	b"" ) // a // b
+,uint32 chars , } // " ++ [27880; 37322]%N ++ runes_of_ascii "
+MetaData
+// `tick` ""quote"" 'q'
+// 50% %s
+packetx {
+calculatedFrom Header , } packet
+    x_y_z	{  }")).
+Eval vm_compute in ("<<<M393>>>" ++ check (runes_of_ascii "packet Logon{@calculatedFrom( ""1"" )  repeat T
+trueish,
+    @lengthOf( o
+)	char[ 4294967296] repeatCount@lengthOf(
+    i64_ ) `// not a comment`
+    ,@tag(007) Logon , } MetaData asx
+    { Packet leftPad, /// triple
+uint64 Z9_ `// not a comment`,string metadata ,
+}
+packet u128 {
+@tag(	007
+) @calculatedFrom( """ ++ [28040; 24687]%N ++ runes_of_ascii """  )
+@rightPad  (
+'\x00'
+    )	zchar[ 7 ] stringy`crlf
+line` , } // " ++ [128512]%N ++ runes_of_ascii " emoji")).
+Eval vm_compute in ("<<<M4178>>>" ++ check (runes_of_ascii "// @lengthOf(
+packet Z9_ {
+    @tag(7)
+    @tag(10)
+    @lengthOf(u)
+    repeat metadata {
+        repeat asx `100% of %d`,
+        repeat x_y_z,
+        repeat u16 Pad `" ++ [233]%N ++ runes_of_ascii "`,
+        match leftPad as trueish {
+            65535 : packetx,
+            4294967296 : trueish,
+            [""a\""b"", ""\" ++ [233]%N ++ runes_of_ascii """] : chars,
+            7 : a1,
+            [""" ++ [28040; 24687]%N ++ runes_of_ascii """] : falsey,
+        },
+    },
+}")).
+Eval vm_compute in ("<<<M362>>>" ++ check (runes_of_ascii "options// @lengthOf(
+{ f32a= true } packet	MetaDataX { @calculatedFrom(
+""" ++ [128512]%N ++ runes_of_ascii """ ) float32 lengthOf @calculatedFrom( ""\n""
+) `` ,
+    zchar[007 ]
+    zchar //	t
+@calculatedFrom( ""abc""
+)  `{ , }` ,int32
+    //
+    roots // trailing space 
+,match lengthOf as pack
+    { [ ""// no comment"",	""""
+,
+    00
+    , 0123456789 ] : leftPad
+,	10 :	crc , ""{,}""
+:
+f32a, }
+,} // c")).
+Eval vm_compute in ("<<<M4354>>>" ++ check (runes_of_ascii "root packet roots {
+    repeat uint8x {
+        uint32 int `tab	here`,
+        match zchar as calculatedFrom {
+            [
+                007, 0, 7, ""a\""b"", 0123456789,
+                """ ++ [233]%N ++ runes_of_ascii "t" ++ [233]%N ++ runes_of_ascii """, 4294967296, ""1""
+            ] : o,
+        },
+    },
+    char uint8x `{ , }`,
+}
+
+packet rootA {
+    @lengthOf(o)
+    char _x,// " ++ [27880; 37322]%N ++ runes_of_ascii "
+    u64 i8i8 `
+    `,
+}")).
+Eval vm_compute in ("<<<M73>>>" ++ check (runes_of_ascii "root packet
+    rootA { char[ 4294967296
+] _x
+    `say ""hi""` , repeat
+    // " ++ [128512]%N ++ runes_of_ascii " emoji
+    chars  i64_ // packet A { u8 x, }
+,
+@lengthOf(// " ++ [27880; 37322]%N ++ runes_of_ascii "
+stringy //	t
+)
+// `tick` ""quote"" 'q'
+//x
+@lengthOf( chars
+) repeat
+char[] rootA
+    ,
+    // trailing space 
+    float@lengthOf( zchar)
+    `u8 x,` // a // b
+, @calculatedFrom( ""a	b"" )
+A,}
+")).
+Eval vm_compute in ("<<<M4361>>>" ++ check (runes_of_ascii "packet MetaDataX {
+    @tag(10)
+    i8 asx `crlf
+        line`,
+    @lengthOf(crc)
+    match x_y_z as Foo {
+        00 : u8x,
+    },
+    @tag(4294967296)
+    int16 x_y_z,
+    repeat int32 trueish,
+    @calculatedFrom(""x y"")
+    repeat u32 matchKey,
+    repeat uint8x BodyLength `it's`,
+    repeat i64 _x `100% of %d`,
+}")).
+Eval vm_compute in ("<<<M1100>>>" ++ check (runes_of_ascii "root  packet// c
+chars { match//	t
+MetaDataX as options1
+{
+    //
+    [ 3 , 0123456789 ] : rootA 00	: Pad
+,}
+    ,
+@lengthOf(
+i8i8
+) @tag( 255
+)match /// triple
+matchKey as asx
+    {3 : A ,	42 :	Header	65535 :i64_  ,
+7 : u8x }
+    , @calculatedFrom( ""a\\"" )	@lengthOf( crc)uint8
+i8i8 @lengthOf( f32a  ) ,}")).
+Eval vm_compute in ("<<<M1251>>>" ++ check (runes_of_ascii "
+packet
+string_ { @calculatedFrom(""" ++ [128512]%N ++ runes_of_ascii """) match charz
+as calculatedFrom { 7: charz //x
+,// 50% %s
+}
+    // 50% %s
+    , @lengthOf(  Z9_ // trailing space 
+) uint16 calculatedFrom
 ,
 match
-    seqNo
-	as Body
-
-    {
-
-    43 :	Logon,93 
+// " ++ [27880; 37322]%N ++ runes_of_ascii "
+// a // b
+body as chars
+{""""	: // " ++ [128512]%N ++ runes_of_ascii " emoji
+lengthOf 255 : Z9_,
+[ 0123456789]// " ++ [128512]%N ++ runes_of_ascii " emoji
 :
-Party
+    asx, }	,
+}")).
+Eval vm_compute in ("<<<M2044>>>" ++ check (runes_of_ascii "packet	packetx { // trailing space 
+x_y_z
+{
+string
+charz ,
+string x// @lengthOf(
+`two words`
+    ,  u8x { // `tick` ""quote"" 'q'
+charz `100% of %d` // packet A { u8 x, }
+,}// " ++ [27880; 37322]%N ++ runes_of_ascii "
+,} , }
+    // a // b
+    packet metadata {  @leftPad ( '0') repeat i32 options1 ,u64 uint8x , @leftpad }
+")).
+Eval vm_compute in ("<<<M1904>>>" ++ check (runes_of_ascii "packet	packetx { // trailing space 
+x_y_z
+{
+string
+charz ,
+string x// @lengthOf(
+`two words`
+    int32  u8x { // `tick` ""quote"" 'q'
+charz `100% of %d` // packet A { u8 x, }
+,}// " ++ [27880; 37322]%N ++ runes_of_ascii "
+,} , }
+    // a // b
+    packet metadata {  @leftPad ( '0') repeat i32 options1 ,u64 uint8x , }
+")).
+Eval vm_compute in ("<<<M1967>>>" ++ check (runes_of_ascii "packet	packetx { // trailing space 
+x_y_z
+{
+string
+charz ,
+string x// @lengthOf(
+`two words`
+    ,  u8x { // `tick` ""quote"" 'q'
+charz `100% of %d` // packet A { u8 x, }
+,}// " ++ [27880; 37322]%N ++ runes_of_ascii "
+,} , }
+    // a // b
+    packet metadata { {  @leftPad ( '0') repeat i32 options1 ,u64 uint8x , }
+")).
+Eval vm_compute in ("<<<M1898>>>" ++ check (runes_of_ascii "packet	packetx { // trailing space 
+x_y_z
+{
+string
+charz ,
+string x// @lengthOf(
 ,
+    `two words`  u8x { // `tick` ""quote"" 'q'
+charz `100% of %d` // packet A { u8 x, }
+,}// " ++ [27880; 37322]%N ++ runes_of_ascii "
+,} , }
+    // a // b
+    packet metadata {  @leftPad ( '0') repeat i32 options1 ,u64 uint8x , }
+")).
+Eval vm_compute in ("<<<M4311>>>" ++ check (runes_of_ascii "options {
+    // packet A { u8 x, }
+}
 
-    }	,
+options {
+    uint8x = uint64;
+    int = u64;
+    tag = 007;
+    int = 255;
+    metadata = '\x00'
+}
+
+MetaData asx {
+    u8 options1 ``,
+    char charz `a\`,
+    string_ Packet `
+        `,
+    uint8 As,//
+    Logon As `it's`,
+    u32 As,
+}")).
+Eval vm_compute in ("<<<M1964>>>" ++ check (runes_of_ascii "packet	packetx { // trailing space 
+x_y_z
+{
+string
+charz ,
+string x// @lengthOf(
+`two words`
+    ,  u8x { // `tick` ""quote"" 'q'
+charz `100% of %d` // packet A { u8 x, }
+,}// " ++ [27880; 37322]%N ++ runes_of_ascii "
+,} , }
+    // a // b
+    packet int32 {  @leftPad ( '0') repeat i32 options1 ,u64 uint8x , }
+")).
+Eval vm_compute in ("<<<M2049>>>" ++ check (runes_of_ascii "packet	packetx { // trailing space 
+x_y_z
+{
+string
+charz ,
+string x// @lengthOf(
+`two words`
+    ,  u8x { // `tick` ""quote"" 'q'
+charz `100% of %d` // packet A { u8 x, }
+,}// " ++ [27880; 37322]%N ++ runes_of_ascii "
+,} , }
+    // a // b
+    packet x" ++ [178]%N ++ runes_of_ascii " {  @leftPad ( '0') repeat i32 options1 ,u64 uint8x , }
+")).
+Eval vm_compute in ("<<<M2075>>>" ++ check (runes_of_ascii "packet// packet A { u8 x, }
+repeatCount	{// packet A { u8 x, }
+@leftPad ( '\x00' '\x00'
+) repeat u8x MetaDataX `crlf
+line`,
+    repeat
+    char[] MetaDataX
+    ,
+u64	uint8x@calculatedFrom(""a\""b""
+// c
+// packet A { u8 x, }
+) `tab	here`
+,//
+}MetaData pack
+    {
     }
 ")).
-Eval vm_compute in ("<<<M1913>>>" ++ check (runes_of_ascii "// c
-options {
-    i8i8 = """ ++ [28040; 24687]%N ++ runes_of_ascii """;
-    Pad = ' '
-}
-
-root packet i8i8 {
-    i64 matchKey `" ++ [233]%N ++ runes_of_ascii "`,
-    match repeatCount as x {
-        //	t
-        // a // b
-        42 : float,
-        007 : u,
+Eval vm_compute in ("<<<M4064>>>" ++ check (runes_of_ascii "packet Logon {
+    @calculatedFrom(""x y"")
+    @rightPad(' ')
+    @lengthOf(crc)
+    // `tick` ""quote"" 'q'
+    i16 stringy @calculatedFrom(""`tick`""),
+    match a1 as a1 {
+        [0, 42] : falsey,
+        1 : rootA,
+        """ ++ [233]%N ++ runes_of_ascii "t" ++ [233]%N ++ runes_of_ascii """ : packetx,
+        10 : x,
     },
-    @calculatedFrom(""a	b"")
-    string_ {
-        matchKey string_,// trailing space 
-    },
-    repeat char[] repeatCount,
-}
-
-options {
-    msg_type = true;
-    int = u16
-    string_ = false;
 }")).
-Eval vm_compute in ("<<<M2031>>>" ++ check (runes_of_ascii "// " ++ [27880; 37322]%N ++ runes_of_ascii "
-packet tag {
-    repeat i64_ {
-        zchar[007] Logon @calculatedFrom(""packet""),
-        repeat char[] leftPad `a\`,
-        zchar[3] float,
+Eval vm_compute in ("<<<M3592>>>" ++ check (runes_of_ascii "packet P1 {
+    u8 a,
+}
+
+packet P2 {
+    P1,
+}
+
+packet P3 {
+    P2,
+    P1,
+}
+
+packet P4 {
+    repeat P3,
+    P2,
+}
+
+root packet P5 {
+    P4,
+    P3,
+    P1,
+    u8 K,
+    match K as Body {
+        4 : P4,
+        3 : P3,
+        2 : P2,
+        1 : P1,
     },
+}")).
+Eval vm_compute in ("<<<M2101>>>" ++ check (runes_of_ascii "packet// packet A { u8 x, }
+repeatCount	{// packet A { u8 x, }
+@leftPad ( '\x00'
+) repeat u8x MetaDataX ,`crlf
+line`
+    repeat
+    char[] MetaDataX
+    ,
+u64	uint8x@calculatedFrom(""a\""b""
+// c
+// packet A { u8 x, }
+) `tab	here`
+,//
+}MetaData pack
+    {
+    }
+")).
+Eval vm_compute in ("<<<M2184>>>" ++ check (runes_of_ascii "packet// packet A { u8 x, }
+repeatCount	{// packet A { u8 x, }
+@leftPad ( '\x00'
+) repeat u8x MetaDataX `crlf
+line`,
+    repeat
+    char[] MetaDataX
+    ,
+u64	uint8x@calculatedFrom(""a\""b""
+// c
+// packet A { u8 x, }
+) `tab	here`
+,//
+}MetaData pack
+    {
+    
+")).
+Eval vm_compute in ("<<<M2051>>>" ++ check (runes_of_ascii "// packet A { u8 x, }
+repeatCount	{// packet A { u8 x, }
+@leftPad ( '\x00'
+) repeat u8x MetaDataX `crlf
+line`,
+    repeat
+    char[] MetaDataX
+    ,
+u64	uint8x@calculatedFrom(""a\""b""
+// c
+// packet A { u8 x, }
+) `tab	here`
+,//
+}MetaData pack
+    {
+    }
+")).
+Eval vm_compute in ("<<<M2169>>>" ++ check (runes_of_ascii "packet// packet A { u8 x, }
+repeatCount	{// packet A { u8 x, }
+@leftPad ( '\x00'
+) repeat u8x MetaDataX `crlf
+line`,
+    repeat
+    char[] MetaDataX
+    ,
+u64	uint8x@calculatedFrom(""a\""b""
+// c
+// packet A { u8 x, }
+) `tab	here`
+,//
+} pack
+    {
+    }
+")).
+Eval vm_compute in ("<<<M1564>>>" ++ check (runes_of_ascii "packet calculatedFrom
+{ @calculatedFrom( ""a\\"" ) zchar[ 4294967296 ]
+calculatedFrom@lengthOf( pack )	`100% of %d` ,char[]body@calculatedFrom( ""// no comment"" )  ,
+@tag( 007) //x
+int8
+leftPad`it's` , repeat pack
+    { { repeat char[ 3] body
+,},
+}")).
+Eval vm_compute in ("<<<M1632>>>" ++ check (runes_of_ascii "packet calculatedFrom
+{ @calculatedFrom( ""a\\"" ) zchar[ 4294967296 ]
+calculatedFrom@lengthOf( na" ++ [239]%N ++ runes_of_ascii "ve )	`100% of %d` ,char[]body@calculatedFrom( ""// no comment"" )  ,
+@tag( 007) //x
+int8
+leftPad`it's` , repeat pack
+    { repeat char[ 3] body
+,},
+}")).
+Eval vm_compute in ("<<<M1525>>>" ++ check (runes_of_ascii "packet calculatedFrom
+{ @calculatedFrom( ""a\\"" ) zchar[ 4294967296 ]
+calculatedFrom@lengthOf( pack )	`100% of %d` ,char[]body@calculatedFrom( ""// no comment"" )  ,
+@tag( )007 //x
+int8
+leftPad`it's` , repeat pack
+    { repeat char[ 3] body
+,},
+}")).
+Eval vm_compute in ("<<<M1583>>>" ++ check (runes_of_ascii "packet calculatedFrom
+{ @calculatedFrom( ""a\\"" ) zchar[ 4294967296 ]
+calculatedFrom@lengthOf( pack )	`100% of %d` ,char[]body@calculatedFrom( ""// no comment"" )  ,
+@tag( 007) //x
+int8
+leftPad`it's` , repeat pack
+    { repeat char[ 3 body
+,},
+}")).
+Eval vm_compute in ("<<<M1446>>>" ++ check (runes_of_ascii "packet calculatedFrom
+{ @calculatedFrom( ""a\\"" ) { 4294967296 ]
+calculatedFrom@lengthOf( pack )	`100% of %d` ,char[]body@calculatedFrom( ""// no comment"" )  ,
+@tag( 007) //x
+int8
+leftPad`it's` , repeat pack
+    { repeat char[ 3] body
+,},
+}")).
+Eval vm_compute in ("<<<M3313>>>" ++ check (runes_of_ascii "// top
+MetaData // c0
+float // c1
+{ // c2
+uint8 // c3
+BodyLength // c4
+, // c5
+} // c6
+MetaData // c7
+charz // c8
+{ // c9
+float32 // c10
+trueish // c11
+`a\` // c12
+, // c13
+i16 // c14
+metadata // c15
+`say ""hi""` // c16
+, // c17
+} // c18
+")).
+Eval vm_compute in ("<<<M286>>>" ++ check (runes_of_ascii "packet
+    BodyLength {
 }
-
-packet pack {
-    repeat i8 len `
-    `,
+    MetaData stringy {
+    // `tick` ""quote"" 'q'
+    Z9_
+packetx// c
+`a\` , uint32
+    Packet// 50% %s
+`tab	here` , zchar[
+0123456789 ] float , stringy
+x_y_z `say ""hi""`
+,  char[] u128	`crlf
+line`  ,}
+")).
+Eval vm_compute in ("<<<M448>>>" ++ check (runes_of_ascii "packet
+//
+//
+x_y_z { uint64 i64_ , }
+// " ++ [27880; 37322]%N ++ runes_of_ascii "
+// " ++ [128512]%N ++ runes_of_ascii " emoji
+packet //x
+A {  @lengthOf( // a // b
+chars)
+@rightPad
+(  '0'
+) a1	i8i8 // @lengthOf(
+,
+    }MetaData As { }
+packet body {	@lengthOf(
+    Logon ) string f32a , }")).
+Eval vm_compute in ("<<<M3520>>>" ++ check (runes_of_ascii "packet Logon {
+    string user,
 }
-
-root packet uint8x {
-    // packet A { u8 x, }
-    @leftPad()
-    @calculatedFrom(""a\\"")
-    @rightPad('\x00')
-    repeat char[0] T,
-}//	t")).
-Eval vm_compute in ("<<<M1474>>>" ++ check (runes_of_ascii "options {
-    LittleEndian = true;
-}
-packet Logon {
-    u8 x,
+root packet Frame {
+    u8 K,
+    match K as Body {
+        1 : Logon,
+        2 : Logout,
+    },
+    Tail,
 }
 packet Logout {
     u16 reason,
 }
-root packet Frame {
-    i32 Kind,
-    i32 Kind2,
-    match Kind as Body {
-        1 : Logon,
-        [2, 3, 4] : Logout,
-        100 : Logon,
-    },
-    match Kind2 as Trailer {
-        0 : Logout,
-    },
+packet Tail {
+    u32 crc,
 }
 ")).
-Eval vm_compute in ("<<<M1479>>>" ++ check (runes_of_ascii "options
+Eval vm_compute in ("<<<M3659>>>" ++ check (runes_of_ascii "
+// top
+  	packet  // c0a
+	  // c0b
+      o 	 // c1a
+    // c1b
 
-{ LittleEndian= 
-true;
-}
-	packet
-	Logon
-	{ 
-u8 x , 
-string  user ,}
-	packet
-	Logout	{
+  {
+    // c2
+	  @tag(4294967296
 
-    u16	reason,
-
-    } packet Empty  {
-	}  root packet
-
-    Frame  {
-
-u16  MsgType
-,@lengthOf(Body ) 
-u8 BodyLen
-,
-
-u8	flags,
-
-    Logon
-Body
-
-,
-u32
-trailer ,
-
-} ")).
-Eval vm_compute in ("<<<M352>>>" ++ check (runes_of_ascii "
-root packet
-    // `tick` ""quote"" 'q'
-    BodyLength { metadata
-/// triple
-// `tick` ""quote"" 'q'
-{
-calculatedFrom,zchar[ 007 ] msg_type@lengthOf( int )
-`say ""hi""` , chars uint8x , string
-As @calculatedFrom( ""a	b""
-)`
-` ,/// triple
-} ,  }
-")).
-Eval vm_compute in ("<<<M529>>>" ++ check (runes_of_ascii "options
-{
-matchKey = 42/// triple
-x='0' ;
-// packet A { u8 x, }
-//
-charz
-=
-// packet A { u8 x, }
-// trailing space 
-true  ; } MetaData BodyLength
-{
-uint8
-pack,zchar[ 1]float ,  float32 x_y_z `` float32 u32
-_x,i16 body  , }
-")).
-Eval vm_compute in ("<<<M522>>>" ++ check (runes_of_ascii "options
-{
-matchKey = 42/// triple
-x='0' ;
-// packet A { u8 x, }
-//
-charz
-=
-// packet A { u8 x, }
-// trailing space 
-true  ; } MetaData BodyLength
-{
-uint8
-pack,zchar[ 1]float ,  float32 x_y_z `` `` ,u32
-_x,i16 body  , }
-")).
-Eval vm_compute in ("<<<M478>>>" ++ check (runes_of_ascii "options
-{
-matchKey = 42/// triple
-x='0' ;
-// packet A { u8 x, }
-//
-charz
-=
-// packet A { u8 x, }
-// trailing space 
-true  ; } MetaData BodyLength
-{
-uint8
-,pack zchar[ 1]float ,  float32 x_y_z `` ,u32
-_x,i16 body  , }
-")).
-Eval vm_compute in ("<<<M453>>>" ++ check (runes_of_ascii "options
-{
-matchKey = 42/// triple
-x='0' ;
-// packet A { u8 x, }
-//
-charz
-=
-// packet A { u8 x, }
-// trailing space 
-true  ; MetaData } BodyLength
-{
-uint8
-pack,zchar[ 1]float ,  float32 x_y_z `` ,u32
-_x,i16 body  , }
-")).
-Eval vm_compute in ("<<<M506>>>" ++ check (runes_of_ascii "options
-{
-matchKey = 42/// triple
-x='0' ;
-// packet A { u8 x, }
-//
-charz
-=
-// packet A { u8 x, }
-// trailing space 
-true  ; } MetaData BodyLength
-{
-uint8
-pack,zchar[ 1]float   float32 x_y_z `` ,u32
-_x,i16 body  , }
-")).
-Eval vm_compute in ("<<<M1974>>>" ++ check (runes_of_ascii "packet pack {
-    @calculatedFrom(""CRC32"")
-    i8i8 {
-        MetaDataX @lengthOf(x),
-        char As @lengthOf(len),
-        // " ++ [128512]%N ++ runes_of_ascii " emoji
-        //x
-        chars metadata `say ""hi""`,
-        char[0] int,
-    },
-}")).
-Eval vm_compute in ("<<<M1>>>" ++ check (runes_of_ascii "// c
-options {
-    lengthOf = false Logon =
-    false ;
-} MetaData lengthOf
-{ // " ++ [128512]%N ++ runes_of_ascii " emoji
-float32 i8i8, }
-root // `tick` ""quote"" 'q'
-packet roots
-{  zchar[
-7	] f32a
-    // trailing space 
-    , }
-")).
-Eval vm_compute in ("<<<M692>>>" ++ check (runes_of_ascii "// c
-packet i64_ i64_ {	char[] calculatedFrom , } packet
-trueish  {@calculatedFrom(
-""a\\"" ) o { i32 falsey@lengthOf( uint8x ),
-} , } // `tick` ""quote"" 'q'
-options {// c
-Z9_ = ' '//
-}
-")).
-Eval vm_compute in ("<<<M683>>>" ++ check (runes_of_ascii "// c
-packet i64_ {	char[] calculatedFrom , } packet
-trueish  {@calculatedFrom(
-""a\\"" ) o { i32 @lengthOf(falsey uint8x ),
-} , } // `tick` ""quote"" 'q'
-options {// c
-Z9_ = ' '//
-}
-")).
-Eval vm_compute in ("<<<M673>>>" ++ check (runes_of_ascii "// c
- i64_ {	char[] calculatedFrom , } packet
-trueish  {@calculatedFrom(
-""a\\"" ) o { i32 falsey@lengthOf( uint8x ),
-} , } // `tick` ""quote"" 'q'
-options {// c
-Z9_ = ' '//
-}
-")).
-Eval vm_compute in ("<<<M247>>>" ++ check (runes_of_ascii "packet
-Pad { } packet// packet A { u8 x, }
-len // a // b
-{ string u128 , } root packet o {
-@tag( 7
-) char[] msg_type @calculatedFrom( ""// no comment""
-)
-    ,}
-")).
-Eval vm_compute in ("<<<M1352>>>" ++ check (runes_of_ascii "packet
-    B
-{u8 a
-    ,  }	root packet
-
-    P{ u8
-
-    K
-
-    ,
-	u64
-
-    L@lengthOf(	Body
-)  ,  match 
-K
-	as
-    Body {	1 
-:
-B 
-, 
-},}
-")).
-Eval vm_compute in ("<<<M1829>>>" ++ check (runes_of_ascii "MetaData f32a {
-    uint8 repeatCount,
-    x_y_z i8i8,
-    f32 msg_type,
-    charz lengthOf `tab	here`,
-    char[7] chars,
-    float x,
-}")).
-Eval vm_compute in ("<<<M1349>>>" ++ check (runes_of_ascii "
-packet	B
-{
-	u8 a	, 
-}
-
-    root
-
-packet P {  u8  K , 
-u8
-    L @lengthOf(
-Body)
-
-,	match
-K as Body
-{  1
-
-    :B,  }	,
-	} ")).
-Eval vm_compute in ("<<<M607>>>" ++ check (runes_of_ascii "MetaData
-    // trailing space 
-    matchKey
-{ u64 chars chars // a // b
-,char[] lengthOf `// not a comment`
-    , //	t
-}")).
-Eval vm_compute in ("<<<M597>>>" ++ check (runes_of_ascii "MetaData
-    // trailing space 
-    matchKey
-{ { u64 chars // a // b
-,char[] lengthOf `// not a comment`
-    , //	t
-}")).
-Eval vm_compute in ("<<<M24>>>" ++ check (runes_of_ascii "packet _x { int32 u , @tag(3)char[ 255]
-    // @lengthOf(
-    A
-    @calculatedFrom( ""x y""
     )
-`crlf
-line`,
-    }")).
-Eval vm_compute in ("<<<M604>>>" ++ check (runes_of_ascii "MetaData
-    // trailing space 
-    matchKey
-{ ; chars // a // b
-,char[] lengthOf `// not a comment`
-    , //	t
-}")).
-Eval vm_compute in ("<<<M1523>>>" ++ check (runes_of_ascii "packet Logon {
-	@tag(	// c
-	42	)
+options1
+    // c6
 
-@rightPad
-	( 
-' '
-) @leftPad
-	(
-	)
-repeat  trueish 
-{ string
-T
-, }
-, }
+	@lengthOf(  // c7
+	u8x 
+      // c8
+	) // c9
+	  `" ++ [233]%N ++ runes_of_ascii "`
+,	// c11
+}
+
 ")).
-Eval vm_compute in ("<<<M1846>>>" ++ check (runes_of_ascii "
-packet
-    B
+Eval vm_compute in ("<<<M643>>>" ++ check (runes_of_ascii "
+packet a1 {	x { char[]u128@calculatedFrom( ""`tick`""
+    // @lengthOf(
+    ) ,
+trueish
+`it's` , uint64
+    As
+@lengthOf( falsey )
+, string Logon
+@calculatedFrom( ""CRC32"" )  `it's` , }
+, }")).
+Eval vm_compute in ("<<<M1950>>>" ++ check (runes_of_ascii "packet	packetx { // trailing space 
+x_y_z
 {
-    u8
+string
+charz ,
+string x// @lengthOf(
+`two words`
+    ,  u8x { // `tick` ""quote"" 'q'
+charz `100% of %d` // packet A { u8 x, }
+,}// " ++ [27880; 37322]%N ++ runes_of_ascii "
+,}")).
+Eval vm_compute in ("<<<M4452>>>" ++ check (runes_of_ascii "root
+	packet T  {
+@calculatedFrom(
+""" ++ [28040; 24687]%N ++ runes_of_ascii """
+	) int8	Pad, 
+repeat u16 int
 
-a  , string
-    s
-,} root packet
-P
+`// not a comment`
+	, u16
+	int 
+	    // a // b
+	`a\` 
+    // " ++ [128512]%N ++ runes_of_ascii " emoji
+  	/// triple
+	, /// triple
+		}
 
+")).
+Eval vm_compute in ("<<<M1790>>>" ++ check (runes_of_ascii "options { } packet Packet{char[] i64_ ,
+@tag(
+    255) match
+crc as i8i8{""{,}"" : trueish """" : Pad , ""a\\"" :
+Foo ,
+    1 :packetx
+@calculatedFrom( """ ++ [128512]%N ++ runes_of_ascii """ : trueish , } , }")).
+Eval vm_compute in ("<<<M124>>>" ++ check (runes_of_ascii "root packet i64_ { f32 string_ `// not a comment` , } options { msg_type//x
+=
+    ""// no comment""
+    ; // 50% %s
+matchKey// 50% %s
+=
+    ""packet""
+; /// triple
+}
+")).
+Eval vm_compute in ("<<<M1132>>>" ++ check (runes_of_ascii "root packet
+roots { zchar[
+    //
+    7]
+chars@lengthOf(
+i8i8 )	`two words` , int32 BodyLength `// not a comment`, } MetaData
+    Z9_ { }
+// trailing space 
+")).
+Eval vm_compute in ("<<<M2396>>>" ++ check (runes_of_ascii "
+packet MetaDataX
 {
-u16 L
-@lengthOf(  B  )
-	,B
-    ,u8 t
-
-,
-
-} ")).
-Eval vm_compute in ("<<<M1256>>>" ++ check (runes_of_ascii "packet calculatedFrom
-// c
-{ @tag( 4294967296 ) u msg_type , char[ 3 ] crc @lengthOf( len ) `u8 x,` , }")).
-Eval vm_compute in ("<<<M1288>>>" ++ check (runes_of_ascii "packet calculatedFrom { @tag( 4294967296 ) u msg_type , char[ 3 ] crc @lengthOf( len ) `u8 x,` ,
-// c
-}")).
-Eval vm_compute in ("<<<M1632>>>" ++ check (runes_of_ascii "
-packet A{
-
-match
-
-k
-
-    as 
-n
-
-    {
-	[
-1	, 22
-, 007,
-4,5 ,	66, 7 , 8
-	]
-    :	B
-
-2
-:C},
-
-}")).
-Eval vm_compute in ("<<<M1134>>>" ++ check (runes_of_ascii "packet Logon { // c
-@tag( 42 ) @rightPad ( ' ' ) @leftPad ( ) repeat trueish { string T , } , }")).
-Eval vm_compute in ("<<<M1166>>>" ++ check (runes_of_ascii "packet Logon { @tag( 42 ) @rightPad ( ' ' ) @leftPad ( ) repeat trueish { string T , // c
-} , }")).
-Eval vm_compute in ("<<<M841>>>" ++ check (runes_of_ascii "packet A {
-  match k as n {
-    [""a"", ""bb"", ""c c"", ""d"", ""e"", ""f"", ""g""] : B
-    2 : C
-  },
-}")).
-Eval vm_compute in ("<<<M1953>>>" ++ check (runes_of_ascii "packet A {
+    @leftPad
+( // a // b
+'0'
+) i8 u @lengthOf(
+MetaDataX
+    ) ) `say ""hi""` ,	} MetaData BodyLength {
+    asx
+x_y_z `" ++ [233]%N ++ runes_of_ascii "`
+, uint64 u128 , }
+")).
+Eval vm_compute in ("<<<M1660>>>" ++ check (runes_of_ascii "options { } packet Packet as char[] i64_ ,
+@tag(
+    255) match
+crc as i8i8{""{,}"" : trueish """" : Pad , ""a\\"" :
+Foo ,
+    1 :packetx
+, """ ++ [128512]%N ++ runes_of_ascii """ : trueish , } , }")).
+Eval vm_compute in ("<<<M1688>>>" ++ check (runes_of_ascii "options { } packet Packet{char[] i64_ ,
+@tag(
+    255) ) match
+crc as i8i8{""{,}"" : trueish """" : Pad , ""a\\"" :
+Foo ,
+    1 :packetx
+, """ ++ [128512]%N ++ runes_of_ascii """ : trueish , } , }")).
+Eval vm_compute in ("<<<M3866>>>" ++ check (runes_of_ascii "packet A {
     match k as n {
-        [""a"", ""bb"", 007, ""d""] : B,
+        [
+            1, 22, 007, 4, 5,
+            66, 7, 8, 9, 10,
+            11, 12
+        ] : B,
         2 : C,
     },
 }")).
-Eval vm_compute in ("<<<M2024>>>" ++ check (runes_of_ascii "root packet x_y_z {
-    // a // b
-    // packet A { u8 x, }
-    repeat falsey `" ++ [233]%N ++ runes_of_ascii "`,
+Eval vm_compute in ("<<<M1650>>>" ++ check (runes_of_ascii "options { } Packet packet{char[] i64_ ,
+@tag(
+    255) match
+crc as i8i8{""{,}"" : trueish """" : Pad , ""a\\"" :
+Foo ,
+    1 :packetx
+, """ ++ [128512]%N ++ runes_of_ascii """ : trueish , } , }")).
+Eval vm_compute in ("<<<M1804>>>" ++ check (runes_of_ascii "options { } packet Packet{char[] i64_ ,
+@tag(
+    255) match
+crc as i8i8{""{,}"" : trueish """" : Pad , ""a\\"" :
+Foo ,
+    1 :packetx
+, """ ++ [128512]%N ++ runes_of_ascii """ : , trueish } , }")).
+Eval vm_compute in ("<<<M1817>>>" ++ check (runes_of_ascii "options { } packet Packet{char[] i64_ ,
+@tag(
+    255) match
+crc as i8i8{""{,}"" : trueish """" : Pad , ""a\\"" :
+Foo ,
+    1 :packetx
+, """ ++ [128512]%N ++ runes_of_ascii """ : trueish , }  }")).
+Eval vm_compute in ("<<<M1248>>>" ++ check (runes_of_ascii "MetaData zchar
+    { u16 // packet A { u8 x, }
+packetx  `" ++ [28040; 24687; 31867; 22411]%N ++ runes_of_ascii "` ,
+metadata
+rootA, string trueish
+`` , }// a // b
+root packet
+    Foo { }
+// @lengthOf(
+")).
+Eval vm_compute in ("<<<M2393>>>" ++ check (runes_of_ascii "
+packet MetaDataX
+{
+    @leftPad
+( // a // b
+'0'
+) i8 u @lengthOf(
+MetaDataX
+    ) `say ""hi""` ,	} MetaData x" ++ [178]%N ++ runes_of_ascii " {
+    asx
+x_y_z `" ++ [233]%N ++ runes_of_ascii "`
+, uint64 u128 , }
+")).
+Eval vm_compute in ("<<<M4413>>>" ++ check (runes_of_ascii "MetaData matchKey {
+    //x
+    char[] Packet,
+    _x x_y_z,
+    string_ matchKey `" ++ [233]%N ++ runes_of_ascii "`,
+}
+
+packet len {
+    Foo {
+        u @lengthOf(a1),
+    },
 }")).
-Eval vm_compute in ("<<<M1217>>>" ++ check (runes_of_ascii "packet o { @tag( 42
+Eval vm_compute in ("<<<M4153>>>" ++ check (runes_of_ascii "root packet T {
+    string zchar,
+    zchar[3] stringy,// 50% %s
+}
+
+packet rootA {
+    u {
+        repeatCount @lengthOf(o) `" ++ [28040; 24687; 31867; 22411]%N ++ runes_of_ascii "`,
+    },
+}")).
+Eval vm_compute in ("<<<M1801>>>" ++ check (runes_of_ascii "options { } packet Packet{char[] i64_ ,
+@tag(
+    255) match
+crc as i8i8{""{,}"" : trueish """" : Pad , ""a\\"" :
+Foo ,
+    1 :packetx
+, """ ++ [128512]%N ++ runes_of_ascii """")).
+Eval vm_compute in ("<<<M330>>>" ++ check (runes_of_ascii "MetaData T { zchar[4294967296 ]
+calculatedFrom	, } options	{ trueish= ""packet"" ;
+// `tick` ""quote"" 'q'
+// @lengthOf(
+u = """ ++ [28040; 24687]%N ++ runes_of_ascii """; } //x")).
+Eval vm_compute in ("<<<M4380>>>" ++ check (runes_of_ascii "MetaData metadata {
+    u128 f32a,
+    i16 _x,
+    float64 rootA `" ++ [28040; 24687; 31867; 22411]%N ++ runes_of_ascii "`,
+    pack u,/// triple
+    u32 Z9_,
+    u16 float,
+}// c")).
+Eval vm_compute in ("<<<M3272>>>" ++ check (runes_of_ascii "MetaData metadata { } MetaData rootA // c
+{ i8 i64_ , roots options1 `a\` , lengthOf Header , Z9_ Foo , int16 BodyLength , }")).
+Eval vm_compute in ("<<<M3304>>>" ++ check (runes_of_ascii "MetaData metadata { } MetaData rootA { i8 i64_ , roots options1 `a\` , lengthOf Header , Z9_ Foo , int16 BodyLength // c
+, }")).
+Eval vm_compute in ("<<<M3801>>>" ++ check (runes_of_ascii "MetaData float {
+    uint8 BodyLength,
+}
+
+MetaData charz {
+    float32 trueish `a\`,
+    i16 metadata `say ""hi""`,// c
+}")).
+Eval vm_compute in ("<<<M12>>>" ++ check (runes_of_ascii "
+root packet metadata { u16
+    len
+@lengthOf( //x
+As) `crlf
+line`,// trailing space 
+uint8 u8x `crlf
+line` ,}")).
+Eval vm_compute in ("<<<M420>>>" ++ check (runes_of_ascii "packet charz { roots //
+@calculatedFrom(
+    ""a\\"" ) `a\` , @tag(
+7
+)
+len string_ , // a // b
+} // @lengthOf(")).
+Eval vm_compute in ("<<<M3343>>>" ++ check (runes_of_ascii "MetaData float { uint8 BodyLength , } MetaData charz { float32 trueish `a\`
 // c
-) repeat x { char[ 0123456789 ] i64_ , } , } options { }")).
-Eval vm_compute in ("<<<M1690>>>" ++ check (runes_of_ascii "
-root packet P
-    {  u8	s_u8 ,
-repeat 
+, i16 metadata `say ""hi""` , }")).
+Eval vm_compute in ("<<<M944>>>" ++ check (runes_of_ascii "packet options1
+{ repeat char[4294967296  ] //
+i64_
+, string
+repeatCount `
+`
+    , } // packet A { u8 x, }")).
+Eval vm_compute in ("<<<M3080>>>" ++ check (runes_of_ascii "packet A {
+    u16 len @lengthOf(body) `%`,
+    u32 crc @calculatedFrom(""CRC32"") `%`,
+    string body,
+}")).
+Eval vm_compute in ("<<<M1082>>>" ++ check (runes_of_ascii "  packet// trailing space 
+x_y_z	{
+    trueish
+    @lengthOf(
+roots
+// c
+// packet A { u8 x, }
+) , }
+")).
+Eval vm_compute in ("<<<M3006>>>" ++ check (runes_of_ascii "packet A {
+  match k as n {
+    [1, 22, ""c c"", 4, 5, ""f"", 7, 8, ""i"", 10, 11] : B,
+    2 : C
+  },
+}")).
+Eval vm_compute in ("<<<M4246>>>" ++ check (runes_of_ascii "MetaData	_x {	f64 charz
+`tab	here`,
+    }  // c
+  	options
+	{
+
+    BodyLength
+=
+
+""" ++ [233]%N ++ runes_of_ascii "t" ++ [233]%N ++ runes_of_ascii """ ;
+}
+
+")).
+Eval vm_compute in ("<<<M1741>>>" ++ check (runes_of_ascii "options { } packet Packet{char[] i64_ ,
+@tag(
+    255) match
+crc as i8i8{""{,}"" : trueish """"")).
+Eval vm_compute in ("<<<M1223>>>" ++ check (runes_of_ascii "root packet As
+    {
+    // trailing space 
+    @calculatedFrom( ""1"" ) //x
+body
+len ,
+}
+")).
+Eval vm_compute in ("<<<M2279>>>" ++ check (runes_of_ascii "MetaData _x {string x `// not a comment` , string
+i64_ // trailing space 
+" ++ [8232]%N ++ runes_of_ascii "`a\` ,
+    }
+")).
+Eval vm_compute in ("<<<M2256>>>" ++ check (runes_of_ascii "MetaData _x {string x `// not a comment` , string
+i64_ // trailing space 
+, `a\`
+    }
+")).
+Eval vm_compute in ("<<<M4079>>>" ++ check (runes_of_ascii "  packet A	{ 
+match k
+as n {[
+""a""
+    , 22
+,	""c c""
+
+, 
+4
+    ]:	B  2 
+:
+
+C
+}
+
+,
+
+}
+
+")).
+Eval vm_compute in ("<<<M3676>>>" ++ check (runes_of_ascii "packet  rootA{
+} packet
+	zchar{ float64
+	a1
+
+    @calculatedFrom( ""{,}""
+
+)
+    ,}")).
+Eval vm_compute in ("<<<M2267>>>" ++ check (runes_of_ascii "MetaData _x {string x `// not a comment` , string
+i64_ // trailing space 
+`a\` ,")).
+Eval vm_compute in ("<<<M258>>>" ++ check (runes_of_ascii "
+options {_x	=
+true int
+    = true ;Packet
+= float32
+    ; A
+    =
+    10 ; }
+")).
+Eval vm_compute in ("<<<M2870>>>" ++ check (runes_of_ascii "( @leftPad uint64 [ , @calculatedFrom( char } char[] : ] @tag( MetaData @tag(")).
+Eval vm_compute in ("<<<M3376>>>" ++ check (runes_of_ascii "MetaData _x { f64 charz `tab	here` , // c
+} options { BodyLength = """ ++ [233]%N ++ runes_of_ascii "t" ++ [233]%N ++ runes_of_ascii """ ; }")).
+Eval vm_compute in ("<<<M1716>>>" ++ check (runes_of_ascii "options { } packet Packet{char[] i64_ ,
+@tag(
+    255) match
+crc as i8i8")).
+Eval vm_compute in ("<<<M1398>>>" ++ check (runes_of_ascii "packet
+string_{ @tag( 10 )
+u16 u8x @lengthOf(
+uint8x ) `crlf
+line`,}
+")).
+Eval vm_compute in ("<<<M3477>>>" ++ check (runes_of_ascii "root packet P {
+    u16 a,
+    u32 Sum @calculatedFrom(""CR\
+C32""),
+}
+")).
+Eval vm_compute in ("<<<M3422>>>" ++ check (runes_of_ascii "packet o { @tag( 4294967296 ) options1 @lengthOf( u8x ) `" ++ [233]%N ++ runes_of_ascii "` // c
+, }")).
+Eval vm_compute in ("<<<M2818>>>" ++ check (runes_of_ascii "@calculatedFrom( root float64 : f32 f64 ] = match ( @leftPad uint8")).
+Eval vm_compute in ("<<<M4544>>>" ++ check (runes_of_ascii "packet metadata {
+    // " ++ [27880; 37322]%N ++ runes_of_ascii "
+    uint8x @lengthOf(len) `{ , }`,
+}")).
+Eval vm_compute in ("<<<M2932>>>" ++ check (runes_of_ascii "packet A { Inner { match k as n { [1,22,007,4,5] : B, }, }, }")).
+Eval vm_compute in ("<<<M1170>>>" ++ check (runes_of_ascii "//	t
+MetaData charz { Packet BodyLength `line1
+line2` , }
+")).
+Eval vm_compute in ("<<<M3687>>>" ++ check (runes_of_ascii "MetaData M {
+    u8 x `d`,
+    y z `e`,
+    char[3] w,
+}")).
+Eval vm_compute in ("<<<M847>>>" ++ check (runes_of_ascii "/// triple
+options {charz=
+false
+; }	packet Logon	{ }")).
+Eval vm_compute in ("<<<M2348>>>" ++ check (runes_of_ascii "
+MetaData caf" ++ [233]%N ++ runes_of_ascii "_1{
+u32 rootA `line1
+line2` ,
+    }
+")).
+Eval vm_compute in ("<<<M2335>>>" ++ check (runes_of_ascii "
+MetaData Pad{
+u32 rootA `line1
+line2` ,
+    " ++ [0]%N ++ runes_of_ascii "}
+")).
+Eval vm_compute in ("<<<M4136>>>" ++ check (runes_of_ascii "MetaData Foo {
+    msg_type roots `two words`,
+}")).
+Eval vm_compute in ("<<<M2033>>>" ++ check (runes_of_ascii "packet	packetx { // trailing space 
+x_y_z
+{")).
+Eval vm_compute in ("<<<M2308>>>" ++ check (runes_of_ascii "
+MetaData Pad{
+u32  `line1
+line2` ,
+    }
+")).
+Eval vm_compute in ("<<<M3040>>>" ++ check (runes_of_ascii "MetaData M {
+    u8 x `
+`,
+    T t `
+`,
+}")).
+Eval vm_compute in ("<<<M3244>>>" ++ check (runes_of_ascii "MetaData zchar { zchar[ 3 ]
+// c
+Pad , }")).
+Eval vm_compute in ("<<<M4515>>>" ++ check (runes_of_ascii "  packet  A
+	{
 u8
 
-    r_u8
-
-,
-
-u16  b_len ,
-
-    }")).
-Eval vm_compute in ("<<<M1620>>>" ++ check (runes_of_ascii "packet A {
-    match k as n {
-        [""a"", ""bb""] : B,
-        2 : C,
-    },
+x `d" ++ [5760]%N ++ runes_of_ascii "`,  // c" ++ [5760]%N ++ runes_of_ascii "
+	} ")).
+Eval vm_compute in ("<<<M2866>>>" ++ check (runes_of_ascii "@rightPad ; as ( float32 uint16 true")).
+Eval vm_compute in ("<<<M595>>>" ++ check (runes_of_ascii "MetaData chars{ Pad BodyLength , }")).
+Eval vm_compute in ("<<<M2859>>>" ++ check (runes_of_ascii "true { repeat MetaData ; ""packet""")).
+Eval vm_compute in ("<<<M3066>>>" ++ check (runes_of_ascii "packet A {
+    u8 x `tab
+	x`,
 }")).
-Eval vm_compute in ("<<<M1646>>>" ++ check (runes_of_ascii "options {
+Eval vm_compute in ("<<<M2465>>>" ++ check (runes_of_ascii "f32 f64 float32 float64 float")).
+Eval vm_compute in ("<<<M2618>>>" ++ check (runes_of_ascii "packet A { B { u8 x, } C, }")).
+Eval vm_compute in ("<<<M3078>>>" ++ check (runes_of_ascii "packet A {
+    u8 x `%`,
+}")).
+Eval vm_compute in ("<<<M2600>>>" ++ check (runes_of_ascii "packet A { char[ 3 ] , }")).
+Eval vm_compute in ("<<<M2804>>>" ++ check ([65533; 65533]%N ++ runes_of_ascii "K" ++ [29; 65533]%N ++ runes_of_ascii "EK" ++ [65533; 65533]%N ++ runes_of_ascii ":j}GX" ++ [8; 65533; 65533; 7; 65533; 65533]%N ++ runes_of_ascii "q" ++ [65533]%N)).
+Eval vm_compute in ("<<<M2740>>>" ++ check (runes_of_ascii "<" ++ [65533; 65533]%N ++ runes_of_ascii "|" ++ [24; 65533; 65533; 65533; 1; 65533]%N ++ runes_of_ascii """" ++ [65533]%N ++ runes_of_ascii "u" ++ [65533; 1597; 65533; 65533; 65533; 65533; 22]%N)).
+Eval vm_compute in ("<<<M3623>>>" ++ check (runes_of_ascii "packet lengthOf {
+}")).
+Eval vm_compute in ("<<<M3154>>>" ++ check (runes_of_ascii "packet A {
 }
+// c" ++ [8287]%N)).
+Eval vm_compute in ("<<<M2666>>>" ++ check (runes_of_ascii "MetaData M { x, }")).
+Eval vm_compute in ("<<<M2512>>>" ++ check (runes_of_ascii "@calculatedFrom(")).
+Eval vm_compute in ("<<<M1860>>>" ++ check (runes_of_ascii "packet	packetx")).
+Eval vm_compute in ("<<<M2672>>>" ++ check (runes_of_ascii "MetaData { }")).
+Eval vm_compute in ("<<<M4337>>>" ++ check (runes_of_ascii "
 
-packet repeatCount {
-    // `tick` ""quote"" 'q'
-}
-
-options {
-}")).
-Eval vm_compute in ("<<<M1371>>>" ++ check (runes_of_ascii "
-root
-	packet
-	P 
-{ u16  a, u32
-Sum@calculatedFrom( ""CRC32""
-    ) 
-,  }")).
-Eval vm_compute in ("<<<M799>>>" ++ check (runes_of_ascii "packet A {
-  match k as n {
-    [1, 22, 007, 4] : B,
-    2 : C
-  },
-}")).
-Eval vm_compute in ("<<<M771>>>" ++ check (runes_of_ascii """a\\"" false i32 00 match @calculatedFrom( int8 f64 packet char[]")).
-Eval vm_compute in ("<<<M366>>>" ++ check (runes_of_ascii "
-packet Logon{ match
-    float as trueish { 3 : int } , }
-
+  //	t
 ")).
-Eval vm_compute in ("<<<M1069>>>" ++ check (runes_of_ascii "packet A { match k as n { 1 : B // a // b 2 : C }, }")).
-Eval vm_compute in ("<<<M967>>>" ++ check (runes_of_ascii "options {
-    a = ""x\
-y"";
-    b = ""x\
-y""
-}")).
-Eval vm_compute in ("<<<M1109>>>" ++ check (runes_of_ascii "MetaData zchar {
-// c
-zchar[ 3 ] Pad , }")).
-Eval vm_compute in ("<<<M420>>>" ++ check (runes_of_ascii "options
-{
-matchKey = 42/// triple
-x")).
-Eval vm_compute in ("<<<M1062>>>" ++ check (runes_of_ascii "packet A {
- u8 x `d x`, // c x
-}")).
-Eval vm_compute in ("<<<M1012>>>" ++ check (runes_of_ascii "packet A {
- u8 x `d" ++ [8232]%N ++ runes_of_ascii "`, // c" ++ [8232]%N ++ runes_of_ascii "
-}")).
-Eval vm_compute in ("<<<M288>>>" ++ check (runes_of_ascii "packet
-repeatCount {
-    }")).
-Eval vm_compute in ("<<<M1297>>>" ++ check (runes_of_ascii "packet
-// c
-lengthOf { }")).
-Eval vm_compute in ("<<<M131>>>" ++ check (runes_of_ascii "  packet float { }
-")).
-Eval vm_compute in ("<<<M1021>>>" ++ check (runes_of_ascii "// c" ++ [8239]%N ++ runes_of_ascii "
-packet A {
-}")).
-Eval vm_compute in ("<<<M1018>>>" ++ check (runes_of_ascii "packet A {
-}// c" ++ [8239]%N)).
-Eval vm_compute in ("<<<M400>>>" ++ check (runes_of_ascii "options
-{")).
-Eval vm_compute in ("<<<M1054>>>" ++ check (runes_of_ascii "// c" ++ [6158]%N)).
+Eval vm_compute in ("<<<M2448>>>" ++ check (runes_of_ascii "char[]x")).
+Eval vm_compute in ("<<<M2532>>>" ++ check (runes_of_ascii """a\
+b""")).
+Eval vm_compute in ("<<<M3108>>>" ++ check (runes_of_ascii "// c" ++ [12288]%N)).
+Eval vm_compute in ("<<<M2545>>>" ++ check (runes_of_ascii "12ab")).
+Eval vm_compute in ("<<<M2548>>>" ++ check (runes_of_ascii "1 2")).
+Eval vm_compute in ("<<<M2557>>>" ++ check (runes_of_ascii "1_")).
+Eval vm_compute in ("<<<M2829>>>" ++ check (runes_of_ascii "X")).
